@@ -12,2127 +12,2193 @@ Definition show_fres (r : fres) : string :=
   end.
 Definition check (rs : list rune) : string := digest (show_fres (format_res rs)).
 Definition full (rs : list rune) : string := show_fres (format_res rs).
-Eval vm_compute in ("<<<M273>>>" ++ check (runes_of_ascii "packet len
-{  @calculatedFrom( ""`tick`"" )	repeat zchar[ 00
-    ]chars //	t
-`a\`
-    ,
-u8x
-// trailing space 
-// a // b
-MetaDataX `line1
-line2`
-    // c
-    ,@calculatedFrom( ""a\""b"" ) match
-    matchKey as asx {
-    [ ""CRC32"" , ""a\""b""
-]// " ++ [27880; 37322]%N ++ runes_of_ascii "
-:
-msg_type
-    ,
-    }
-, i8 string_ @calculatedFrom( ""{,}"" )
-    ,@lengthOf(
-lengthOf
-    //
-    ) zchar[42 ]
-    _x
-// packet A { u8 x, }
-/// triple
-`line1
-line2` ,
-    @lengthOf( asx) repeat// `tick` ""quote"" 'q'
-int8 Header , repeat crc {
-int8 i64_//x
-@calculatedFrom( ""{,}"" ) , } ,repeat _x i8i8 `line1
-line2` , float64// trailing space 
-stringy , MetaDataX { charz
-    { int16 matchKey, repeat
-    i64_,
-    char[ 00] Z9_ `
-` ,
-    match As
-    //x
-    as Packet { 3 : crc , [
-//	t
-// @lengthOf(
-1 ,
-00
-]: Header // " ++ [27880; 37322]%N ++ runes_of_ascii "
-,	255 :_x , 42 : body
-,	[0	] : chars
-    [ 4294967296
-, 65535 ] :chars , }
-/// triple
-// @lengthOf(
-,  }
-// trailing space 
-// @lengthOf(
-, } , } MetaData falsey {
-char[
-255
-] u128 , u8 Header`tab	here`
-,
-string float ,} root packet int { Logon i64_  ,
-    @calculatedFrom(
-""1""
-) zchar { u {
-    zchar[
-255 ] Pad , } , stringy {
-    Pad metadata `u8 x,` ,
-}	, repeat	string i8i8, char[]
-    As@calculatedFrom(
-""\n"" ) ,}
-    // " ++ [27880; 37322]%N ++ runes_of_ascii "
-    , @lengthOf( packetx // a // b
-) @lengthOf(
-    i64_ ) body `line1
-line2`,@lengthOf(roots)match
-// `tick` ""quote"" 'q'
-// trailing space 
-MetaDataX as uint8x { // `tick` ""quote"" 'q'
-[	007
-/// triple
-// " ++ [27880; 37322]%N ++ runes_of_ascii "
-, //x
-255
-    ,
-00]
-    :	body// c
-, [ 65535 , ""1"",// `tick` ""quote"" 'q'
-1  ,
-""\n""//	t
-, 1	,
-    ""CRC32""
-    ,
-    //	t
-    0
-    ] :trueish
-,
-} , uint64 Foo
-, zchar {metadata
-@lengthOf(Pad)//	t
-`crlf
-line` ,
-    match u as charz { 65535 :
-    //x
-    int
-[ ""1""]
-:
-// c
-//
-a1 , [4294967296 , 00,""" ++ [233]%N ++ runes_of_ascii "t" ++ [233]%N ++ runes_of_ascii """ , """ ++ [28040; 24687]%N ++ runes_of_ascii """ ,
-    00 ]: matchKey , [ ""a\\"" ] : Logon ,
-    },
-repeat rootA { int16
-Foo @lengthOf( rootA // " ++ [27880; 37322]%N ++ runes_of_ascii "
-),options1 `u8 x,` // trailing space 
-, }	,  },  match chars as u
-// " ++ [128512]%N ++ runes_of_ascii " emoji
-// " ++ [128512]%N ++ runes_of_ascii " emoji
-{ [//
-""it's"" , 007	, """ ++ [233]%N ++ runes_of_ascii "t" ++ [233]%N ++ runes_of_ascii """, ""abc"" ,""\n"" ,
-// " ++ [128512]%N ++ runes_of_ascii " emoji
-// " ++ [27880; 37322]%N ++ runes_of_ascii "
-"""" // c
-] :	repeatCount,
-65535
-    // " ++ [128512]%N ++ runes_of_ascii " emoji
-    :Z9_
-, [ 007  , ""abc"",""// no comment""
-, """ ++ [28040; 24687]%N ++ runes_of_ascii """ ] :  falsey ,
-00
-:
-    string_}
-,  char repeatCount , } packet Foo {char[]
-a1 @calculatedFrom( """")`line1
-line2`
-, uint16 // a // b
-MetaDataX
-    // packet A { u8 x, }
-    `say ""hi""`,char[] A ,
-// trailing space 
-// " ++ [128512]%N ++ runes_of_ascii " emoji
-f64 int @lengthOf(Pad  ) , u32
-    BodyLength
-, float64
-trueish @lengthOf(lengthOf )
-// `tick` ""quote"" 'q'
-// trailing space 
-`crlf
-line` , @tag(255 ) match Z9_ as tag { [ ""a\""b"",4294967296  ,  ""{,}"" ,""{,}""/// triple
-] :	Pad	, 1 : lengthOf ,	0123456789 : msg_type  , ""// no comment"":
-    BodyLength, [ ""1"" ] : string_ [3 , 0,1 , 1
-, ""\" ++ [233]%N ++ runes_of_ascii """ // " ++ [27880; 37322]%N ++ runes_of_ascii "
-,
-    """"
-    , 00
-    // c
-    ] // c
-: asx} , body `say ""hi""`// `tick` ""quote"" 'q'
-,	}options { x	='0'
-; u8x // " ++ [128512]%N ++ runes_of_ascii " emoji
-= u64;
-// c
-//	t
-string_ = ""a\""b"" }
-")).
-Eval vm_compute in ("<<<M1350>>>" ++ check (runes_of_ascii "root packet Header
-{repeat
-zchar[
-10 ]charz `two words`
-    , repeat
-    u8 uint8x
-`" ++ [233]%N ++ runes_of_ascii "`
-    //	t
-    , T@calculatedFrom(
-""{,}"" )
-    `u8 x,` ,
-char[1	] trueish
-    @lengthOf( x_y_z )
-    `crlf
-line` , repeat Pad
-    Foo ,
-    @lengthOf(  roots )repeat asx	,@rightPad
-( '0' ) @leftPad ('0' ) @leftPad('0'	) uint8  x @lengthOf( body) `crlf
-line` ,match body
-    as rootA {[ // " ++ [128512]%N ++ runes_of_ascii " emoji
-0 // " ++ [27880; 37322]%N ++ runes_of_ascii "
-, ""\n""] :
-x_y_z
-,
-    10
-    : packetx , 1 : BodyLength , """ ++ [233]%N ++ runes_of_ascii "t" ++ [233]%N ++ runes_of_ascii """ :zchar 3  :
-// `tick` ""quote"" 'q'
-// packet A { u8 x, }
-As
-""" ++ [233]%N ++ runes_of_ascii "t" ++ [233]%N ++ runes_of_ascii """ : asx	, },
-    match packetx as	lengthOf { """ ++ [233]%N ++ runes_of_ascii "t" ++ [233]%N ++ runes_of_ascii """ :
-    roots , 42 :
-lengthOf [ ""a\""b"" ] :asx // trailing space 
-,},
-}packet calculatedFrom {@calculatedFrom( ""abc"" ) repeat
-u64
-//x
-// @lengthOf(
-stringy , @calculatedFrom(
-""" ++ [233]%N ++ runes_of_ascii "t" ++ [233]%N ++ runes_of_ascii """
-) i32 i8i8 @lengthOf(
-f32a
-    )
-,i8 Pad // a // b
-@calculatedFrom(""a\\"") ,
-char charz`" ++ [28040; 24687; 31867; 22411]%N ++ runes_of_ascii "`,@calculatedFrom(	""" ++ [233]%N ++ runes_of_ascii "t" ++ [233]%N ++ runes_of_ascii """// c
-)
-@tag(4294967296 )rootA //
-msg_type
-    , @calculatedFrom(
-    ""CRC32"" //	t
-)	@tag( 007) @tag( 0
-    )
-uint8 A
-    `crlf
-line` ,
-    char[ 0123456789 ]// " ++ [128512]%N ++ runes_of_ascii " emoji
-repeatCount	`" ++ [233]%N ++ runes_of_ascii "`, packetx@lengthOf( tag
-)	`it's` , @lengthOf(// c
-leftPad  ) @calculatedFrom( ""\n""
-) @leftPad	( )Foo
-    @calculatedFrom( ""a\\"" ) `" ++ [28040; 24687; 31867; 22411]%N ++ runes_of_ascii "` ,} packet metadata
-{ packetx `" ++ [28040; 24687; 31867; 22411]%N ++ runes_of_ascii "`
-, u16 i64_
-@calculatedFrom( ""a\""b"" ) `
-`
-    ,}
-    //	t
-    packet falsey{ //
-@lengthOf(
-//
-// " ++ [128512]%N ++ runes_of_ascii " emoji
-int// @lengthOf(
-)
-// trailing space 
-// " ++ [27880; 37322]%N ++ runes_of_ascii "
-Packet  , @calculatedFrom(
-""packet"" ) @lengthOf( trueish
-    //	t
-    ) @leftPad // " ++ [128512]%N ++ runes_of_ascii " emoji
-()
-A repeatCount
-    ,A `
-`// " ++ [128512]%N ++ runes_of_ascii " emoji
-, repeat  trueish
-    `{ , }` , zchar[
-    /// triple
-    42
-/// triple
-//	t
-] rootA @lengthOf( A ),} root
-    packet u { repeat char[]i8i8 , @tag( 007) body
-    // c
-    { repeat u8x`tab	here`, } ,	@rightPad(
-    // @lengthOf(
-    '\x00'
-    ) i16
-matchKey`it's` ,@lengthOf( trueish
-)
-metadata  @lengthOf(
-lengthOf)
-    ,// `tick` ""quote"" 'q'
-int
-@calculatedFrom( ""`tick`"" ) ,@tag(
-3) match x_y_z	as BodyLength {1 //	t
-:options1
-//	t
-// c
-,
-    } , repeat i64_
-string_	,
-    //
-    u8 trueish , f64
-calculatedFrom ,}")).
-Eval vm_compute in ("<<<M1280>>>" ++ check (runes_of_ascii "options
-    {metadata
-    /// triple
-    =string ; }packet
-Header{@leftPad ( ' '
-)string//	t
-i8i8 `it's`
-// `tick` ""quote"" 'q'
-// `tick` ""quote"" 'q'
-,
-@lengthOf(// " ++ [27880; 37322]%N ++ runes_of_ascii "
-roots )	u
-@calculatedFrom( """ ++ [128512]%N ++ runes_of_ascii """ )
-, @tag(65535 // packet A { u8 x, }
-) match
-Pad as
-stringy// `tick` ""quote"" 'q'
-{3
-: f32a
-    ,""a\\""
-: i8i8
-,
-    [
-    """ ++ [128512]%N ++ runes_of_ascii """ ,
-7] :
-rootA , // " ++ [128512]%N ++ runes_of_ascii " emoji
-""a\""b"" : x_y_z
-,
-[ 0123456789 ,""a	b""  ]: Logon
-,
-} ,metadata {  char[] // `tick` ""quote"" 'q'
-chars @calculatedFrom(
-    """ ++ [128512]%N ++ runes_of_ascii """
-)`two words` , repeat asx	{ msg_type { int64 _x `
-`
-    ,repeat Z9_
-/// triple
-// `tick` ""quote"" 'q'
-,
-uint16 leftPad `line1
-line2`,
-    trueish x_y_z ``, } , // trailing space 
-zchar[ 4294967296// " ++ [27880; 37322]%N ++ runes_of_ascii "
-]
-chars `crlf
-line`, Logon `a\` ,
-} ,  char[]body ,
-    } ,  repeat u { int {
-repeat
-    zchar{
-f64
-lengthOf @calculatedFrom(	""abc""  ) `" ++ [233]%N ++ runes_of_ascii "` ,/// triple
-}
-, As @calculatedFrom(
-    ""{,}"" )
-    // packet A { u8 x, }
-    , repeat  char[] // `tick` ""quote"" 'q'
-metadata
-, string// a // b
-calculatedFrom `two words` , }	, },
-    @rightPad
-( '0'
-)// " ++ [27880; 37322]%N ++ runes_of_ascii "
-@rightPad(
-    '0'  )
-@lengthOf( x )repeat leftPad `// not a comment`
-    ,
-@rightPad ( ' '
-)o  Z9_
-, }
+Eval vm_compute in ("<<<M3750>>>" ++ check (runes_of_ascii "
+// top
+	options	// c0
+  { StringPrefixLenType
+// c2
+		= 
+// c3
+u64 	 // c4a
+	// c4b
+  ;	// c5
+    ArrayPrefixLenType	=// c7
+  u16  // c8
+;  // c9a
+    // c9b
+
+	FixedStringPadChar
+
+= 	 // c11
+  ' ' 	 // c12
+; 
+        // c13
+
+} 
+	// c14
+	packet  // c15a
+		// c15b
+	  Logon	// c16a
+// c16b
+
+{ // c17a
+  // c17b
+	i32 
+      // c18
+    msgKind ,	repeat
+InOrderid65
+
+{// c23a
+    // c23b
+u8
+
+    // c24
+    pad0 // c25a
+  // c25b
+	,	// c26
+    	}  , // c28a
+    // c28b
+
+i8 
+    // c29
+  tag7
+	,  
+  // c31
+    @leftPad 
+	    // c32
+  ( ' '  // c34a
+		// c34b
+    ) 
+        // c35
+	char[  // c36a
+	// c36b
+  12 
+// c37
+	] 
+    // c38
+    x // c39a
+// c39b
+	,}
+// c41
+
+  packet // c42a
+  // c42b
+    Leg	{	// c44a
+// c44b
+	  char[]// c45
+    	f1	// c46
+	,  // c47a
+
+	// c47b
+	repeat
+
+    // c48
+char[ // c49
+      5// c50
+      ]
+        // c51
+
+	Px // c52a
+// c52b
+
+	, // c53
+InQty34 	 // c54
+
+	{
+repeat  char[
+    // c57
+	6// c58a
+  // c58b
+	]	// c59a
+    // c59b
+
+	Qty	// c60
+  ,char[ // c62
+	7 // c63
+]  // c64
+	seqNo// c65
+    	,	string
+	    // c67
+	count 
+
+    // c68
+
+	,
+} // c70a
+
+// c70b
+	,Logon  ,// c73a
+  // c73b
+  } // c74a
+  // c74b
+packet 	 // c75
+
+Party
+
+{	@leftPad	// c78
+	( 	 // c79
+	'0'
+        // c80
+	) char[  
+  // c82
+  10 // c83
+] 
+OrderId,	// c86
+string
+    Tail 	 // c88
+
+,// c89a
+	// c89b
+    } 
 packet
-    Pad
-    {metadata trueish
-// c
-// " ++ [128512]%N ++ runes_of_ascii " emoji
-`u8 x,` ,
-    } options{ len
-// a // b
-// @lengthOf(
-=i64 f32a =  ""x y""; matchKey = ""packet"" ;  } packet lengthOf
-{char[ 7]
-// trailing space 
-/// triple
-MetaDataX
-@lengthOf(BodyLength
-)
-,int8 As @lengthOf( calculatedFrom  ) ``,repeat char[]
-// a // b
-// @lengthOf(
-As ,
-    body @calculatedFrom( /// triple
-""abc"" ) ,
-    repeat float64 MetaDataX `" ++ [28040; 24687; 31867; 22411]%N ++ runes_of_ascii "` // " ++ [27880; 37322]%N ++ runes_of_ascii "
-,
-@tag(
-    4294967296 )	match u8x as crc
-{[
-""\n"" ,
-65535 ] : // packet A { u8 x, }
-_x , 255 : roots,} ,  } //	t")).
-Eval vm_compute in ("<<<M959>>>" ++ check (runes_of_ascii "
-MetaData lengthOf  {A chars `two words` , u string_
-,roots
-Logon	,u8
-x_y_z , u32
-    lengthOf
-`{ , }` ,
-    } packet
-asx{ @rightPad(
-)	chars `{ , }`, @calculatedFrom( ""a\\""
-) repeat i64
-x ,@calculatedFrom( ""it's"")@calculatedFrom( ""\n"" )
-@leftPad
-( '\x00' ) match
-uint8x as leftPad {	42 // packet A { u8 x, }
-: u128, [	65535] : Logon
-// `tick` ""quote"" 'q'
-// " ++ [128512]%N ++ runes_of_ascii " emoji
-10 :
-u128 ,
-""\n"" :matchKey ,
-} , // c
-leftPad	{
-    packetx
-    @calculatedFrom( ""x y"" ) , }
-, i16 int, @calculatedFrom( ""`tick`"" ) uint32 a1@lengthOf(
-i64_), match zchar as
-    roots
-{
-    42 :
-    i64_	,
-4294967296 :x_y_z 10
-:
-    //
-    As [""it's"" ,
-""\" ++ [233]%N ++ runes_of_ascii """ , 255
+	Fill  // c92a
+	// c92b
+    { 
+        // c93
+    	zchar[  // c94a
+    // c94b
+    5 	 // c95
+    ] 	 // c96a
+
+  // c96b
+		venue  // c97
+	, zchar[
+// c99
+
+  3 	 // c100
+	]	// c101
+  clOrdID 
+	    // c102
+	, // c103a
+  	// c103b
+
+  InRef95 // c104
+		{  
+      // c105
+	InLastpx25
+// c106
+
+  { // c107
+u8 pad0, // c110
+    } 	 // c111
+	  , 	 // c112
+
+float64	// c113a
+  // c113b
+
+OrderId 	 // c114a
+		// c114b
+	, 
+        // c115
+      i32// c116a
+
+// c116b
+      f1, 	 // c118
+    	float32 
+      // c119
+		x // c120
+
+,  // c121a
+    // c121b
+  char[] 
+
+    // c122
+  seqNo	// c123
+    ,} 
+    // c125
     ,
-""\n"" ]
-    : Packet , } , @tag( 0123456789 ) match
-    lengthOf
-as	stringy{
-[ """ ++ [28040; 24687]%N ++ runes_of_ascii """ ,""\n"",
-""1"",1 ,	""CRC32"" , 65535 ,
+    // c126
+  repeat // c127a
+	// c127b
+	string 	 // c128
+    	seqNo // c129
+
+,	// c130
+	  }
+root  // c132a
+  // c132b
+
+  packet  // c133
+Heartbeat  // c134
+	{
+
+    repeat Leg
+	, 
+  // c138
+u32 seqNo// c140a
+	  // c140b
+  ,// c141
+
+	u16 	 // c142
+    tag7 // c143
+  ,	// c144
+    	u32 	 // c145a
+	// c145b
+      Flags  // c146
+  @lengthOf( // c147a
+  // c147b
+	Body// c148
+    	)	// c149
+,	// c150a
+	// c150b
+	match
+	tag7
+as	// c153a
+		// c153b
+  	Body 
+      // c154
+    { // c155
+	[ 
+
+// c156
+	195 
+    // c157
+, 75  // c159a
+// c159b
+		] 
+// c160
+	:
+	Party 
+        // c162
+	, 	 // c163a
+
+// c163b
+    171 	 // c164a
+
+// c164b
+  :// c165
+	Fill  // c166a
+	// c166b
+, // c167
+    	78 	 // c168
+  :// c169
+  	Logon	,  // c171a
+    // c171b
+  142
+	:	// c173a
+		// c173b
+	  Leg 
+    // c174
+  ,
+	}// c176
+	, 
+    // c177
+	u32 	 // c178
+    Note
+@calculatedFrom(  // c180
+""CRC32"" 	 // c181
+	)// c182a
+
+	// c182b
+  	,	// c183
+  	}
+    // c184
+")).
+Eval vm_compute in ("<<<M1339>>>" ++ check (runes_of_ascii "packet
+    body {
+repeat // c
+char[ 65535 ] float ,@calculatedFrom(
+//
+// c
+""{,}"" )i64_ f32a `tab	here`,
+    stringy @lengthOf(	options1 ) `a\` , }root // `tick` ""quote"" 'q'
+packet pack
+{len @calculatedFrom(""x y"" )
     // trailing space 
-    65535] : rootA , 00 :trueish
-,""CRC32"": Foo , } ,
-@lengthOf( i64_ ) repeat
-u8x {zchar[ 7]charz @lengthOf( i8i8 ), }	,
-} packet
-a1
-    { @rightPad( '\x00' )calculatedFrom ,
-    i8i8, @lengthOf(
-    chars )
-    @rightPad ('\x00' /// triple
-) len{ string crc,repeat chars `" ++ [233]%N ++ runes_of_ascii "`
-, }, x @calculatedFrom(
-""" ++ [28040; 24687]%N ++ runes_of_ascii """) , // c
-@tag(
-    4294967296)match float as
-    Packet
-{ 1:
-    T,	[ 4294967296 , ""it's"", 007
+    `say ""hi""`,
+    match msg_type as
+    lengthOf
+    { 10 : // c
+len ,[ 007 ,
+    65535
+,65535,
+    // trailing space 
+    ""a	b""
+// packet A { u8 x, }
+// @lengthOf(
+, 3 // @lengthOf(
+,0123456789
+    , ""// no comment""
+]:
+u,[ 10,	""" ++ [233]%N ++ runes_of_ascii "t" ++ [233]%N ++ runes_of_ascii """
 ,
-""CRC32""
-] // packet A { u8 x, }
-:	a1
-    }
+1
+    , 7 ,10 ] // `tick` ""quote"" 'q'
+: // `tick` ""quote"" 'q'
+_x ,
+[ // a // b
+""1"" ,	""`tick`"" ,7,  ""1"" ]
+:u128 ,
+    65535 : Pad ,// packet A { u8 x, }
+}, @rightPad ( '0')
+match As as zchar
+    {[""" ++ [128512]%N ++ runes_of_ascii """, 0
+    ]: // trailing space 
+uint8x }
+, falsey
+{ float64 A@calculatedFrom(
+    // packet A { u8 x, }
+    ""{,}""
+    ) , match	As as asx {
+    // trailing space 
+    3 /// triple
+: Pad ,
+}, repeat
+    char[] len`crlf
+line`
+    , }
 ,
-    @lengthOf(
-    // c
-    matchKey )rootA @lengthOf(
-pack// " ++ [128512]%N ++ runes_of_ascii " emoji
-),
-@lengthOf(
-body
-)
-    repeat x_y_z`` , calculatedFrom chars  ,
-@calculatedFrom( """ ++ [128512]%N ++ runes_of_ascii """ ) chars pack ,
-    // a // b
-    }options {x_y_z = 4294967296; } // " ++ [27880; 37322]%N)).
-Eval vm_compute in ("<<<M4595>>>" ++ check (runes_of_ascii "  options	{  StringPrefixLenType=u16  ;
-ArrayPrefixLenType = 
-u16 ;
-	}
-	packet
-SampleBinary 
-{
-
-    uint16 MsgType
-
-`" ++ [28040; 24687; 31867; 22411]%N ++ runes_of_ascii "`,  u16 BodyLenght@lengthOf( Body) 
-`" ++ [28040; 24687; 20307; 38271; 24230]%N ++ runes_of_ascii "`,
-
-match	MsgType
-
-    as
-Body{
-	1  :Logon
-	,
-
-2  : Logout,
-
-    3 
+//x
+// c
+zchar , match
+Logon as
+    u // " ++ [27880; 37322]%N ++ runes_of_ascii "
+{  ""{,}""
 :
-
-    Heartbeat
-	,
-
-4 : RiskControlRequest ,
-    5 :
-	RiskControlResponse
-	,} ,
-
-@calculatedFrom(  ""CRC32"") 
-u32
-Ckecksum `" ++ [26657; 39564; 21644]%N ++ runes_of_ascii "`  ,}  packet
-
-    Logon {@leftPad
-	(
-    '0'
-	) 
-char[ 10 ]
-UserName
-	`" ++ [29992; 25143; 21517]%N ++ runes_of_ascii "`
-	,
-	string	Password
-`" ++ [23494; 30721]%N ++ runes_of_ascii "`
-	, uint64
-
-ClientId `" ++ [23458; 25143; 31471]%N ++ runes_of_ascii "ID`
-,u16
-HeartbeatInterval `" ++ [24515; 36339; 38388; 38548]%N ++ runes_of_ascii "`  ,
-} packet Logout
-
-{@rightPad ( '0' ) char[ 10	]
-
-    UserName `" ++ [29992; 25143; 21517]%N ++ runes_of_ascii "`
-, 
-uint64
-ClientId`" ++ [23458; 25143; 31471]%N ++ runes_of_ascii "ID` ,  }
-
-packet
-
-    Heartbeat
-    {
-}
-	packet RiskControlRequest{ string
-
-UniqueOrderId 
-`" ++ [21807; 19968; 35746; 21333; 21495]%N ++ runes_of_ascii "`  , char[	16]  ClOrdID`" ++ [23458; 25143; 35746; 21333; 21495]%N ++ runes_of_ascii "` ,
-
-char[
-
-    3
-] MarketID`" ++ [24066; 22330]%N ++ runes_of_ascii "id`,
-
-    char[ 
-12
-
-    ]
-SecurityID	`" ++ [35777; 21048; 20195; 30721]%N ++ runes_of_ascii "`  ,  char
-
-    Side
-
-    `" ++ [20080; 21334; 26041; 21521]%N ++ runes_of_ascii "`
-	,
-char	OrderType
-
-    `" ++ [35746; 21333; 31867; 22411]%N ++ runes_of_ascii "` 
-,
-u64
-
-    Price
-`" ++ [20215; 26684]%N ++ runes_of_ascii "`
-    , u32
-
-Qty
-
-    `" ++ [25968; 37327]%N ++ runes_of_ascii "`
-	, repeat  string
-    ExtraInfo
-`" ++ [38468; 21152; 20449; 24687]%N ++ runes_of_ascii "`
-
-,  repeat
-	SubOrder {
-char[ 
-16 
-]	ClOrdID
-    `" ++ [23376; 35746; 21333; 21495]%N ++ runes_of_ascii "` 
-, u64	Price
-
-`" ++ [23376; 35746; 21333; 20215; 26684]%N ++ runes_of_ascii "` ,u32
-Qty
-	`" ++ [23376; 35746; 21333; 25968; 37327]%N ++ runes_of_ascii "`  ,
-},	}
-
-    packet
-    RiskControlResponse{	string
-    UniqueOrderId	`" ++ [21807; 19968; 35746; 21333; 21495]%N ++ runes_of_ascii "`	,
-    i32	Status`" ++ [29366; 24577]%N ++ runes_of_ascii "`
-
-    ,string	Msg `" ++ [32467; 26524; 20449; 24687]%N ++ runes_of_ascii "`
-,
-    repeat
-    Detail,}packet	Detail { 
-string 
-RuleName `" ++ [35268; 21017; 21517; 31216]%N ++ runes_of_ascii "`
-
-, u16
-Code
-
-    `" ++ [21407; 22240; 20195; 30721]%N ++ runes_of_ascii "` ,
-	}
+    x_y_z
+[""packet""
+] :
+msg_type
+    , 0 // c
+: calculatedFrom , [
+    ""x y""
+, ""a\\"",
+42 ,
+    42
+,// " ++ [128512]%N ++ runes_of_ascii " emoji
+""a\""b""	,
+    /// triple
+    """ ++ [28040; 24687]%N ++ runes_of_ascii """
+,""\n"" ] : asx
+    """" :Pad , [
+    """ ++ [233]%N ++ runes_of_ascii "t" ++ [233]%N ++ runes_of_ascii """ ]
+:
+    Z9_
+// packet A { u8 x, }
+//
+} ,repeat string x_y_z ,
+repeat stringy
+{ repeat chars // a // b
+chars, u8
+    charz
+// trailing space 
+// packet A { u8 x, }
+`{ , }` , match MetaDataX as packetx { [ ""CRC32"" ]
+: metadata , // " ++ [128512]%N ++ runes_of_ascii " emoji
+[ """ ++ [128512]%N ++ runes_of_ascii """,
+""CRC32"" ,007 ,
+""x y"" , ""1""
+    // a // b
+    ,
+// a // b
+// " ++ [27880; 37322]%N ++ runes_of_ascii "
+""abc"" // trailing space 
+, 42
+] : calculatedFrom	,
+    [
+42
+    ,
+    65535 ] :
+// " ++ [128512]%N ++ runes_of_ascii " emoji
+//
+Pad
+, ""\" ++ [233]%N ++ runes_of_ascii """ : msg_type ,
+    //
+    }, }	, }
+packet msg_type{ u8x @calculatedFrom(""{,}"" ), rootA uint8x
+, //x
+f64 falsey	`a\`,
+repeat
+// packet A { u8 x, }
+// packet A { u8 x, }
+char[]
+asx ,
+repeat
+// packet A { u8 x, }
+// packet A { u8 x, }
+chars
+As `two words`,
+    int{ repeat matchKey	`u8 x,`,
+}	, match lengthOf
+as trueish {""\n"" : Foo ,""\" ++ [233]%N ++ runes_of_ascii """ :i8i8, }
+, } // c
+options { } options { f32a =
+    7 ; }
 ")).
-Eval vm_compute in ("<<<M3981>>>" ++ check (runes_of_ascii "options {
-    T = ""it's"";// trailing space 
-    Z9_ = ""\" ++ [233]%N ++ runes_of_ascii """
-    int = '\x00'
-    u8x = ""`tick`""
-    crc = ""packet"";
+Eval vm_compute in ("<<<M4093>>>" ++ check (runes_of_ascii "options {
+    chars = '0';
+    Pad = 42;
 }
 
-root packet string_ {
-    match charz as u {
-        // " ++ [128512]%N ++ runes_of_ascii " emoji
-        0123456789 : zchar,
-        42 : rootA,
-        007 : crc,
-        """ ++ [28040; 24687]%N ++ runes_of_ascii """ : Foo,
-        [007, ""x y""] : int,
-        // " ++ [27880; 37322]%N ++ runes_of_ascii "
+packet roots {
+    @calculatedFrom(""" ++ [28040; 24687]%N ++ runes_of_ascii """)
+    @calculatedFrom(""// no comment"")
+    chars,
+}
+
+packet body {
+    @lengthOf(x)
+    match msg_type as x_y_z {
+        0123456789 : uint8x,
+        // packet A { u8 x, }
+        ""`tick`"" : i64_,
+        // packet A { u8 x, }
+        00 : a1,
+        ""{,}"" : Header,
+        [255] : falsey,
     },
-    @tag(7)
-    repeat metadata,
-    string len @lengthOf(o) `crlf
-    line`,
-    repeat int32 falsey `
-    `,
-    @leftPad()
-    x @calculatedFrom(""// no comment"") `// not a comment`,
-    uint16 rootA,
-    @lengthOf(a1)
-    char calculatedFrom,
-    @tag(3)
-    zchar[65535] body,
+    @calculatedFrom(""\n"")
+    @rightPad()
+    @lengthOf(BodyLength)
+    i16 A @lengthOf(uint8x),
+    char[] Foo @lengthOf(T),
+    @leftPad('0')
+    _x {
+        Logon @lengthOf(u),
+    },
+    @leftPad('\x00')
+    char[4294967296] trueish @calculatedFrom(""x y"") `" ++ [233]%N ++ runes_of_ascii "`,
+    @rightPad(' ')
+    // packet A { u8 x, }
+    match msg_type as pack {
+        [""a\""b"", ""`tick`""] : asx,
+        ""x y"" : a1,
+        """ ++ [128512]%N ++ runes_of_ascii """ : MetaDataX,
+        42 : Foo,
+        007 : trueish,
+        /// triple
+        // @lengthOf(
+        ""it's"" : string_,
+    },
+    repeat Header `
+        `,
+    @tag(00)
+    f32 options1 @lengthOf(calculatedFrom),
+    zchar[255] Logon,
+}
+
+root packet packetx {
+    @lengthOf(calculatedFrom)
+    metadata x_y_z,
+}
+
+packet leftPad {
+    match roots as falsey {
+        ""x y"" : u,
+        ""x y"" : msg_type,
+    },
+    repeat int64 leftPad,
+    u @calculatedFrom(""x y"") `tab	here`,
+    @calculatedFrom(""packet"")
+    match matchKey as BodyLength {
+        255 : a1,
+        007 : T,
+        // `tick` ""quote"" 'q'
+        ""`tick`"" : rootA,
+        [
+            ""a\\"", 1, 255, 7, 1,
+            ""it's"", 1, 42
+        ] : x_y_z,
+        42 : i64_,
+    },
+    float64 x_y_z `doc`,
+    uint8x,
+    string float @calculatedFrom(""\n""),
+    @lengthOf(o)
+    stringy @lengthOf(rootA),
+}//x")).
+Eval vm_compute in ("<<<M1293>>>" ++ check (runes_of_ascii "  root //x
+packet Logon {
+char[	7 ]calculatedFrom @calculatedFrom(	""// no comment""	) `two words`, uint16
+MetaDataX
+`u8 x,`
+    , string a1 @lengthOf( Logon ) // " ++ [27880; 37322]%N ++ runes_of_ascii "
+,
+    @tag( 0 ) // " ++ [128512]%N ++ runes_of_ascii " emoji
+@lengthOf( u8x) @calculatedFrom(
+    ""it's"" ) string
+zchar `doc` , @lengthOf(x_y_z)// trailing space 
+trueish
+// @lengthOf(
+// `tick` ""quote"" 'q'
+{ Z9_ { match
+float
+as/// triple
+lengthOf{00: _x, } ,repeat x_y_z {u8x // " ++ [128512]%N ++ runes_of_ascii " emoji
+uint8x ,	}
+,char[007
+] x_y_z , } , Z9_
+`" ++ [28040; 24687; 31867; 22411]%N ++ runes_of_ascii "` ,
+}
+,
+f32a {
+repeat	zchar[0123456789 ]A, repeat i64
+stringy , leftPad `crlf
+line` ,
+    },
+}packet u128//x
+{  match _x as MetaDataX{ [ ""x y"" , 42  ] : A , }
+, @lengthOf( charz) charz { match x_y_z as // " ++ [27880; 37322]%N ++ runes_of_ascii "
+f32a { [ 007
+, 10
+    ,
+    42
+    , """ ++ [233]%N ++ runes_of_ascii "t" ++ [233]%N ++ runes_of_ascii """ , 0123456789 ] :x_y_z ,// @lengthOf(
+7: u128 , ""// no comment""
+: repeatCount  ,
+    ""a\\"" : int	,""x y"" :u128 } , },i16 chars
+// @lengthOf(
+// packet A { u8 x, }
+@lengthOf( zchar)
+    //	t
+    `u8 x,` , }
+    packet u
+// " ++ [27880; 37322]%N ++ runes_of_ascii "
+// @lengthOf(
+{ repeat u options1 , /// triple
+@calculatedFrom( ""CRC32"" )float32 u128@lengthOf( //x
+u8x )
+`{ , }`,
+@leftPad ('\x00'
+)
+    i8 crc`say ""hi""`
+, } packet
+calculatedFrom {
+}
+packet pack {
+zchar[ 65535 ] calculatedFrom , len { stringy @lengthOf(
+body
+)	, }, @lengthOf( x_y_z// " ++ [128512]%N ++ runes_of_ascii " emoji
+) uint8x
+@lengthOf( tag ) , @calculatedFrom(
+""x y"") zchar[ 65535 ]	tag	@calculatedFrom(
+    ""a\\"") `" ++ [28040; 24687; 31867; 22411]%N ++ runes_of_ascii "` ,
+i64
+uint8x
+    ,  @lengthOf(
+    int ) u8 Pad@lengthOf(  o
+    )  `{ , }`
+    ,  }
+")).
+Eval vm_compute in ("<<<M1393>>>" ++ check (runes_of_ascii "options {
+    StringPrefixLenType = u16;
+    ArrayPrefixLenType = u16;
+}
+
+packet SampleBinary {
+    uint16 MsgType `" ++ [28040; 24687; 31867; 22411]%N ++ runes_of_ascii "`,
+    u16 BodyLenght @lengthOf(Body) `" ++ [28040; 24687; 20307; 38271; 24230]%N ++ runes_of_ascii "`,
+    match MsgType as Body {
+        1 : Logon,
+        2 : Logout,
+        3 : Heartbeat,
+        4 : RiskControlRequest,
+        5 : RiskControlResponse,
+    },
+    @calculatedFrom(""CRC32"")
+    u32 Ckecksum `" ++ [26657; 39564; 21644]%N ++ runes_of_ascii "`,
 }
 
 packet Logon {
-    @leftPad()
-    @tag(7)
-    char u128 `say ""hi""`,
-    @tag(10)
-    char[42] roots,
+    @leftPad('0')
+    char[10] UserName `" ++ [29992; 25143; 21517]%N ++ runes_of_ascii "`,
+    string Password `" ++ [23494; 30721]%N ++ runes_of_ascii "`,
+    uint64 ClientId `" ++ [23458; 25143; 31471]%N ++ runes_of_ascii "ID`,
+    u16 HeartbeatInterval `" ++ [24515; 36339; 38388; 38548]%N ++ runes_of_ascii "`,
 }
 
-root packet i64_ {
-    repeat _x {
-        repeat MetaDataX o,
-    },
-    u128 {
-        asx {
-            u8 a1,
-            repeat As,// a // b
-        },
-    },
-    int16 Foo,
-    u64 asx `
-    `,
-    u8x @lengthOf(crc),
-    @calculatedFrom(""CRC32"")
-    @lengthOf(body)
-    @tag(7)
-    falsey body `{ , }`,
-    MetaDataX {
-        trueish MetaDataX `tab	here`,
-        char[3] i8i8 @calculatedFrom(""" ++ [128512]%N ++ runes_of_ascii """) `" ++ [233]%N ++ runes_of_ascii "`,
+packet Logout {
+    @rightPad('0')
+    char[10] UserName `" ++ [29992; 25143; 21517]%N ++ runes_of_ascii "`,
+    uint64 ClientId `" ++ [23458; 25143; 31471]%N ++ runes_of_ascii "ID`,
+}
+
+packet Heartbeat {
+}
+
+packet RiskControlRequest {
+    string UniqueOrderId `" ++ [21807; 19968; 35746; 21333; 21495]%N ++ runes_of_ascii "`,
+    char[16] ClOrdID `" ++ [23458; 25143; 35746; 21333; 21495]%N ++ runes_of_ascii "`,
+    char[3] MarketID `" ++ [24066; 22330]%N ++ runes_of_ascii "id`,
+    char[12] SecurityID `" ++ [35777; 21048; 20195; 30721]%N ++ runes_of_ascii "`,
+    char Side `" ++ [20080; 21334; 26041; 21521]%N ++ runes_of_ascii "`,
+    char OrderType `" ++ [35746; 21333; 31867; 22411]%N ++ runes_of_ascii "`,
+    u64 Price `" ++ [20215; 26684]%N ++ runes_of_ascii "`,
+    u32 Qty `" ++ [25968; 37327]%N ++ runes_of_ascii "`,
+    repeat string ExtraInfo `" ++ [38468; 21152; 20449; 24687]%N ++ runes_of_ascii "`,
+    repeat SubOrder {
+        char[16] ClOrdID `" ++ [23376; 35746; 21333; 21495]%N ++ runes_of_ascii "`,
+        u64 Price `" ++ [23376; 35746; 21333; 20215; 26684]%N ++ runes_of_ascii "`,
+        u32 Qty `" ++ [23376; 35746; 21333; 25968; 37327]%N ++ runes_of_ascii "`,
     },
 }
 
-options {
-    _x = false
-    _x = char[0123456789]
-    repeatCount = ' '
-    _x = ""packet"";
+packet RiskControlResponse {
+    string UniqueOrderId `" ++ [21807; 19968; 35746; 21333; 21495]%N ++ runes_of_ascii "`,
+    i32 Status `" ++ [29366; 24577]%N ++ runes_of_ascii "`,
+    string Msg `" ++ [32467; 26524; 20449; 24687]%N ++ runes_of_ascii "`,
+    repeat Detail,
+}
+
+packet Detail {
+    string RuleName `" ++ [35268; 21017; 21517; 31216]%N ++ runes_of_ascii "`,
+    u16 Code `" ++ [21407; 22240; 20195; 30721]%N ++ runes_of_ascii "`,
 }")).
-Eval vm_compute in ("<<<M3610>>>" ++ check (runes_of_ascii "options {
-    StringPrefixLenType = u16;
-    ArrayPrefixLenType = u8;
-    FixedStringPadFromLeft = true;
+Eval vm_compute in ("<<<M291>>>" ++ check (runes_of_ascii "//	t
+root
+packet
+packetx { @lengthOf( BodyLength )zchar[ // " ++ [27880; 37322]%N ++ runes_of_ascii "
+00 ]	uint8x	@lengthOf(
+    i8i8)`tab	here` , @lengthOf( x_y_z )@leftPad ( '0'
+)
+@lengthOf( Header )
+f32 pack @calculatedFrom( ""a\\""),
+@calculatedFrom(
+""`tick`"")
+//x
+// " ++ [27880; 37322]%N ++ runes_of_ascii "
+lengthOf// " ++ [128512]%N ++ runes_of_ascii " emoji
+MetaDataX ,@lengthOf( Packet ) lengthOf @calculatedFrom(
+""\n"" )
+    `doc`
+//	t
+//	t
+, @rightPad ( )	char[	0123456789	] float , @lengthOf(
+    options1 )
+//x
+//	t
+@tag(7
+    ) @tag(
+    007) crc int, chars @calculatedFrom(
+""" ++ [233]%N ++ runes_of_ascii "t" ++ [233]%N ++ runes_of_ascii """ )//x
+, @calculatedFrom(//x
+""CRC32"" )
+repeat char[] packetx `two words` , }
+packet T { }
+packet T {char[10
+] u128 ,
+    @lengthOf( calculatedFrom  )
+    chars
+    o
+,
+@calculatedFrom(""\n"" ) match// @lengthOf(
+pack  as Logon  {
+    [
+""// no comment"" , 255 , 42 , ""CRC32"", ""// no comment"" ] : asx
+""it's"" :msg_type	,
+    // `tick` ""quote"" 'q'
+    0123456789  : //	t
+msg_type
+    //	t
+    ,
+255  : //
+len
+,
+}
+    , match chars as int
+    { [ 00
+    , 42,42 ] : x
+    4294967296	: i64_, [""a	b""  ,  007// c
+, """ ++ [128512]%N ++ runes_of_ascii """ , ""// no comment""
+// @lengthOf(
+// trailing space 
+] :f32a, 42 : packetx }
+, /// triple
+crc	{a1 `" ++ [233]%N ++ runes_of_ascii "` , } ,@tag(
+3 )
+    /// triple
+    zchar[7 ]  o`
+`
+, }
+    packet roots{u64 i64_ ``,
+    }")).
+Eval vm_compute in ("<<<M479>>>" ++ check (runes_of_ascii "  MetaData tag { lengthOf
+Z9_	, } // `tick` ""quote"" 'q'
+packet body { @lengthOf( uint8x
+    )
+zchar[00
+// packet A { u8 x, }
+//	t
+] metadata@lengthOf(
+lengthOf)
+    , @rightPad ( ) u @lengthOf(	asx )  `{ , }`, roots // `tick` ""quote"" 'q'
+{ Foo{
+    packetx
+    ,
+}, match
+pack as stringy
+    { 65535 : Logon  , """ ++ [233]%N ++ runes_of_ascii "t" ++ [233]%N ++ runes_of_ascii """ :
+x_y_z [ """"
+    ]
+    :	metadata
+[ 65535 // a // b
+, ""it's""	,
+    00 ,// packet A { u8 x, }
+""{,}"", ""`tick`"" ,4294967296 , 42, 0 ] // " ++ [27880; 37322]%N ++ runes_of_ascii "
+:o ""it's"" : // c
+leftPad , } ,
+repeat string calculatedFrom ,u64 options1 ,
+    }  ,@lengthOf(
+// `tick` ""quote"" 'q'
+// @lengthOf(
+repeatCount )	@tag( 65535
+    // trailing space 
+    )
+@calculatedFrom( ""`tick`"" //
+) zchar @lengthOf(crc)
+`
+`
+    // @lengthOf(
+    , x_y_z ,
+} packet lengthOf // c
+{ @leftPad ( '0'
+)@lengthOf( uint8x
+) @leftPad
+//x
+/// triple
+( ' '	) Foo @calculatedFrom(
+""a\""b"") , zchar[
+7 ] Z9_
+    ,  } packet	crc{ @calculatedFrom( ""{,}""  ) @tag( 3	) @lengthOf(
+// packet A { u8 x, }
+// c
+int
+)
+    crc charz
+, } options { int
+=
+    '0' ; Packet =
+""" ++ [128512]%N ++ runes_of_ascii """ Packet
+= ""`tick`"" ;float = char[
+    10 ] ; // " ++ [27880; 37322]%N ++ runes_of_ascii "
+msg_type
+    = char[ 00
+    ]}
+")).
+Eval vm_compute in ("<<<M756>>>" ++ check (runes_of_ascii "packet BodyLength{
+//
+// " ++ [27880; 37322]%N ++ runes_of_ascii "
+char[ 1
+    ]
+    packetx ,// " ++ [27880; 37322]%N ++ runes_of_ascii "
+} MetaData	Logon{	msg_type
+    chars`crlf
+line`
+/// triple
+//x
+, u64  msg_type ,	} options
+{ // trailing space 
+A =
+    // trailing space 
+    007 x
+= // `tick` ""quote"" 'q'
+0 ;i8i8
+= true T =char}packet tag {  int64 Foo@calculatedFrom( ""it's""
+    // packet A { u8 x, }
+    ) ,	f32  Pad , packetx @lengthOf( msg_type
+)
+, @calculatedFrom( ""`tick`"" ) zchar[255
+    ]
+float
+    `" ++ [28040; 24687; 31867; 22411]%N ++ runes_of_ascii "`
+, } packet trueish {  repeat pack// `tick` ""quote"" 'q'
+roots , @leftPad
+    ( '\x00' ) repeat u64
+A , MetaDataX string_
+    `
+`, float
+    @calculatedFrom( ""// no comment"" ) ,@lengthOf(
+i8i8 ) a1
+{
+int64 body@lengthOf(
+leftPad ) ,
+match charz as u128 {1 :MetaDataX	,  }
+    , match
+//
+//	t
+crc as
+i64_{ ""abc""
+: calculatedFrom ,
+3 :
+    //
+    body,
+    ""\n""// a // b
+: uint8x ,
+[  42, 10 ,
+    255 , ""packet""
+,""" ++ [233]%N ++ runes_of_ascii "t" ++ [233]%N ++ runes_of_ascii """]
+: u8x , } ,
+    string x, } , falsey
+,@calculatedFrom( ""packet"" )  match
+falsey as u8x
+{
+4294967296: Z9_ , """ ++ [233]%N ++ runes_of_ascii "t" ++ [233]%N ++ runes_of_ascii """:
+int
+,
+} , match roots as matchKey  { [
+1]	:
+    trueish },
+} 	 ")).
+Eval vm_compute in ("<<<M1226>>>" ++ check (runes_of_ascii "root packet u128 {
+@lengthOf(
+// `tick` ""quote"" 'q'
+//x
+T) repeat Header
+    , @tag(
+    255) @tag(
+    //x
+    255 ) //x
+u64
+    crc
+    , @tag( 65535
+) @lengthOf( u128
+)uint32 chars ,	} packet
+i64_	{ i8 string_ @calculatedFrom(	""it's"" ) , @leftPad
+( ' '
+//	t
+// " ++ [27880; 37322]%N ++ runes_of_ascii "
+) repeat //x
+Pad
+{ repeat MetaDataX {
+o packetx , roots Header ,
+match falsey as
+    roots {007  :msg_type ,[ 10	] :	T"""" // c
+:Packet,	42
+:msg_type ,
+    }
+, string
+    string_`tab	here`
+    , } ,
+repeat  float64  repeatCount`doc` // packet A { u8 x, }
+, // @lengthOf(
+}
+,match falsey as u8x
+    { ""\" ++ [233]%N ++ runes_of_ascii """ : metadata 0 :repeatCount
+    ,
+    0123456789
+:repeatCount , ""packet"": Foo
+// @lengthOf(
+// @lengthOf(
+, 0123456789
+: tag ,
+    },
+@lengthOf(
+As )
+match A	as // " ++ [128512]%N ++ runes_of_ascii " emoji
+repeatCount{
+    42  : a1
+    ,65535
+    :
+Packet , 7 :	len """" : rootA """ ++ [233]%N ++ runes_of_ascii "t" ++ [233]%N ++ runes_of_ascii """ : rootA},
+    @calculatedFrom( ""CRC32"" )
+    repeatCount @calculatedFrom( ""`tick`"" )	,
+f32 crc `doc` ,
+crc  ,
+// c
+// packet A { u8 x, }
+char[] Header
+,
+} 	 ")).
+Eval vm_compute in ("<<<M3837>>>" ++ check (runes_of_ascii "root packet string_ {
+    @lengthOf(matchKey)
+    repeat string_ matchKey,
+    char[007] i64_ @calculatedFrom(""packet""),
+    @tag(255)
+    stringy len,
+    @leftPad('\x00')
+    i8 matchKey,
+    match options1 as As {
+        0123456789 : x,
+        10 : u8x,
+        [4294967296] : rootA,
+        65535 : charz,
+        3 : int,
+    },
+}
+
+root packet u8x {
+    int16 x_y_z,// trailing space 
+    @calculatedFrom(""abc"")
+    @leftPad(' ')
+    @tag(3)
+    match Packet as leftPad {
+        ""// no comment"" : float,
+    },
+    repeat string_ Packet,
+    string zchar,
+    /// triple
+    Packet `
+    `,
+    float {
+        int8 rootA @lengthOf(x_y_z),
+        // " ++ [128512]%N ++ runes_of_ascii " emoji
+    },
+    Header @lengthOf(stringy),
+    // @lengthOf(
+    string Logon @calculatedFrom(""// no comment""),
+}
+
+MetaData options1 {
+    Foo stringy `" ++ [28040; 24687; 31867; 22411]%N ++ runes_of_ascii "`,
+    Packet i64_ `a\`,
+    char[4294967296] lengthOf,
+    char[] _x,
+    i64 Packet,
+    zchar[255] x,
+}")).
+Eval vm_compute in ("<<<M3652>>>" ++ check (runes_of_ascii "options {
+    LittleEndian = false;
+    FixedStringPadFromLeft = false;
     FixedStringPadChar = ' ';
 }
+packet Fill {
+    uint16 Qty,
+    uint64 clOrdID,
+    repeat i64 Flags,
+}
+packet Ack {
+    zchar[7] clOrdID,
+    u64 lastPx,
+    char[] Note,
+    repeat Fill,
+    int32 count,
+}
 packet Quote {
-    int64 OrderId,
-    char[] Ref,
-    @leftPad('0') char[5] price,
+    u8 venue,
+    InRef40 {
+        char[] Qty,
+    },
+    zchar[5] Flags,
+    @rightPad('\x00') char[12] msgKind,
 }
-packet Heartbeat {
-    zchar[3] venue,
-    string Flags,
-}
-packet Trade {
-    repeat InTag787 {
-        i32 venue,
-        char[5] sym,
-        repeat InPx98 {
-            char[11] Qty,
-            Heartbeat,
-            char[] price,
-            u32 x,
-            float64 count,
-            repeat Quote,
+packet Logout {
+    InSym79 {
+        int32 Qty,
+        Fill,
+        char[3] x,
+        repeat InNote29 {
+            i16 price,
+            Ack,
+            f64 x,
+            zchar[8] count,
         },
-        zchar[7] Note,
-        repeat char[1] Tail,
     },
-    repeat char[2] seqNo,
-    InTail55 {
-        repeat Quote,
-        string msgKind,
-        InPx18 {
-            char[] count,
-            repeat Quote,
-            uint16 Qty,
-        },
-        char[4] seqNo,
-        repeat Heartbeat,
-        repeat string sym,
+}
+root packet Logon {
+    zchar[1] sym,
+    u32 count,
+    u16 tag7 @lengthOf(Body),
+    match count as Body {
+        [122, 152] : Ack,
+        118 : Logout,
+        61 : Quote,
+        161 : Fill,
     },
-    repeat Quote,
-    Heartbeat,
-    @leftPad(' ') char[10] OrderId,
-}
-root packet Fill {
-    Heartbeat,
-    uint32 count,
-    u8 OrderId,
-    match OrderId as Body {
-        96 : Quote,
-        195 : Trade,
-        187 : Heartbeat,
-    },
-    u32 venue @calculatedFrom(""CRC32""),
+    u32 Acct @calculatedFrom(""CR\
+C32""),
 }
 ")).
-Eval vm_compute in ("<<<M358>>>" ++ check (runes_of_ascii "packet	matchKey { } packet rootA {} root packet lengthOf { // trailing space 
-@tag(
-0 //x
-)uint16 repeatCount
-    , //x
-uint32 rootA @calculatedFrom(""it's""
-// packet A { u8 x, }
-// `tick` ""quote"" 'q'
-)
-,
-//	t
-// a // b
-string uint8x /// triple
-,  u128@calculatedFrom(
-""" ++ [28040; 24687]%N ++ runes_of_ascii """ ) ,@leftPad
-( '\x00' ) u  `a\` , @leftPad( ' ' ) @calculatedFrom(
-""1"" ) @lengthOf( int )match msg_type
-// " ++ [128512]%N ++ runes_of_ascii " emoji
-// a // b
-as Pad{
-""abc""// " ++ [27880; 37322]%N ++ runes_of_ascii "
-: asx }
-    , options1 {
-    char[]  metadata // trailing space 
-, Logon@lengthOf( zchar ) , repeatCount {
-zchar[255 ] tag
-    ,x_y_z msg_type,// `tick` ""quote"" 'q'
-pack, MetaDataX @lengthOf(  falsey )
-    , }
-, zchar  @lengthOf( Header  )
-,  } ,@tag( 42 ) char[
-    007 ] i64_
-,
-// trailing space 
-//	t
-@lengthOf( As
-) match crc  as/// triple
-MetaDataX {65535 :leftPad
-""a\""b"" : BodyLength , 42:	crc
-    ,
-    // " ++ [27880; 37322]%N ++ runes_of_ascii "
-    0123456789: body , ""abc""
-:	stringy
-,	""CRC32"":
-    x_y_z,} ,
+Eval vm_compute in ("<<<M656>>>" ++ check (runes_of_ascii "MetaData
     //
-    int32 Header @lengthOf(
-// @lengthOf(
-//
-asx // " ++ [27880; 37322]%N ++ runes_of_ascii "
-) , } packet packetx
-{	}root packet
-float//	t
-{ @tag( 1 ) @lengthOf(
-_x) @leftPad ( '0'
-    )
-repeat // c
-i64_ ,}
-")).
-Eval vm_compute in ("<<<M294>>>" ++ check (runes_of_ascii "MetaData roots { zchar[ 7 ] body , } packet trueish { repeat zchar[ 0123456789
-] i8i8 `line1
-line2`
-//x
-/// triple
-, } packet u8x { x_y_z chars
-, @calculatedFrom( """ ++ [28040; 24687]%N ++ runes_of_ascii """) @calculatedFrom(
-    """ ++ [28040; 24687]%N ++ runes_of_ascii """ )
-    @tag( 007) int64
-Foo// trailing space 
-,int8 _x`it's`
-, match x as Foo {
-[// c
-65535,	""" ++ [233]%N ++ runes_of_ascii "t" ++ [233]%N ++ runes_of_ascii """	,""abc"" ,
-""\" ++ [233]%N ++ runes_of_ascii """// @lengthOf(
-,	10 ]: // packet A { u8 x, }
-Pad
-, } ,
-body
-{ match msg_type as uint8x {
-""a\""b"" :	falsey 0 :  Packet""it's""
-:lengthOf //	t
-""" ++ [28040; 24687]%N ++ runes_of_ascii """:
-charz ,} ,
-    // a // b
-    }	,	@tag( 42 )@calculatedFrom(
-""\" ++ [233]%N ++ runes_of_ascii """
-    )// c
-@lengthOf(
-u )
-    repeat char
-calculatedFrom	, @tag(
-// @lengthOf(
-// " ++ [128512]%N ++ runes_of_ascii " emoji
-1  )
-@rightPad ( '\x00'
-) @lengthOf( f32a )
-int16 pack
-`" ++ [233]%N ++ runes_of_ascii "` , @lengthOf(
-    // c
-    A //x
-) repeat
-char[]
-    options1 , } packet _x { @lengthOf(
-    options1)  string
-    u8x @lengthOf(
-_x// a // b
-), repeat
-// " ++ [128512]%N ++ runes_of_ascii " emoji
-// packet A { u8 x, }
-Pad
-{ As	{ matchKey chars ,
-} ,// trailing space 
-} ,repeat string crc
-    //
-    `line1
-line2` ,
-    //
-    } packet crc{@calculatedFrom( ""{,}"" )  a1 u128 , } //	t")).
-Eval vm_compute in ("<<<M4490>>>" ++ check (runes_of_ascii "MetaData lengthOf {
-    i64 u128,
-    uint32 calculatedFrom,
-    char[00] string_,
-}
-
-root packet falsey {
-    char[] len `line1
-        line2`,
-    @tag(255)
-    uint8x @lengthOf(falsey),
-    float32 len,
-    repeat calculatedFrom i64_ `say ""hi""`,
-    @rightPad('0')
-    char[10] Logon,
-}
-
-packet rootA {
-    // " ++ [128512]%N ++ runes_of_ascii " emoji
-    // a // b
-    x {
-        falsey Logon,
-        trueish @calculatedFrom(""`tick`"") `// not a comment`,
-        uint8x body,
-    },
-    @calculatedFrom(""{,}"")
-    @calculatedFrom(""a\\"")
-    match f32a as i8i8 {
-        // " ++ [27880; 37322]%N ++ runes_of_ascii "
-        10 : matchKey,
-        1 : packetx,
-        0123456789 : Header,
-        ""it's"" : i64_,
-        // packet A { u8 x, }
-        0 : pack,
-    },
-    repeat uint8x x_y_z `" ++ [28040; 24687; 31867; 22411]%N ++ runes_of_ascii "`,
-    repeat char[255] string_,
-    @lengthOf(int)
-    calculatedFrom,
-    @tag(4294967296)
-    u16 packetx @calculatedFrom(""" ++ [28040; 24687]%N ++ runes_of_ascii """),
-    u128 body `doc`,
-}
-
-root packet tag {
-    //x
-    // `tick` ""quote"" 'q'
-    i32 A,
-}
-
-options {
-}")).
-Eval vm_compute in ("<<<M1272>>>" ++ check (runes_of_ascii "// @lengthOf(
-packet options1 {@lengthOf(i8i8 ) i64_
-int  `{ , }`, char[] int
-, zchar[ 00
-//	t
-// packet A { u8 x, }
-] len,
-}
-packet u128 {  @tag(  3 //	t
-)	@calculatedFrom(
-//
-// @lengthOf(
-""// no comment"" )
-options1// packet A { u8 x, }
-{ int16 //x
-calculatedFrom @calculatedFrom( """ ++ [28040; 24687]%N ++ runes_of_ascii """ )	, chars @lengthOf( calculatedFrom )  ,crc
-{
-o @calculatedFrom( """ ++ [233]%N ++ runes_of_ascii "t" ++ [233]%N ++ runes_of_ascii """ ) , float u8x
-    , repeat metadata uint8x , }
-, }, float64	options1,@leftPad
-( ) @lengthOf( Foo) @calculatedFrom(
-""packet"")
-//	t
-// c
-char[ 1 // c
-] i8i8
-@calculatedFrom( ""abc""
-) `{ , }`	,
-@leftPad  ( '0' )  T
-{ int32
-i8i8	`u8 x,`
-    //
-    , match
-Z9_ as string_ { [ 7 , 10 , 65535 ,0 , 42, 255	, ""\" ++ [233]%N ++ runes_of_ascii """
-    // packet A { u8 x, }
-    ,
-""`tick`""] : Foo ,
-""" ++ [233]%N ++ runes_of_ascii "t" ++ [233]%N ++ runes_of_ascii """ :
-u8x[ 255 , """" ,0
-,
-""""
-, """ ++ [233]%N ++ runes_of_ascii "t" ++ [233]%N ++ runes_of_ascii """,
-    255, 4294967296 , 00 ] : i64_ ,
-10
-    : Foo}
-    ,
-    // trailing space 
-    pack @calculatedFrom( ""`tick`"" ) ,} ,
-    a1//	t
-`say ""hi""`, }
-")).
-Eval vm_compute in ("<<<M936>>>" ++ check (runes_of_ascii "
-MetaData
-A
-//
-// " ++ [128512]%N ++ runes_of_ascii " emoji
-{ u8x
-A /// triple
-``
-, int16 roots `// not a comment`
-    , u128 u,
-int options1 `" ++ [28040; 24687; 31867; 22411]%N ++ runes_of_ascii "`,  i16 repeatCount
-,i8	roots, // `tick` ""quote"" 'q'
-} root
-packet matchKey{  lengthOf/// triple
-{ i64_@lengthOf( msg_type )
-, } ,
-    }
-options
-    {x=
-    char[] } // trailing space 
-packet
-As{ i64_`crlf
-line` , // c
-rootA Z9_	,string Pad @calculatedFrom( ""// no comment""
-) `say ""hi""`
-,
-@rightPad
-(
-    '\x00' )
-@calculatedFrom(
-    ""{,}""
-)// `tick` ""quote"" 'q'
-@calculatedFrom(
-    ""CRC32""	)falsey `doc` , match Logon as tag { 3 : f32a ,
-    ""abc"":  o , 255 :	A""abc"": leftPad, }  , @calculatedFrom(""" ++ [233]%N ++ runes_of_ascii "t" ++ [233]%N ++ runes_of_ascii """)repeat u32
-_x `{ , }` , repeat stringy`a\`
-,
-// @lengthOf(
-// " ++ [128512]%N ++ runes_of_ascii " emoji
-len // packet A { u8 x, }
-@lengthOf(Header
-)
-//
-// " ++ [27880; 37322]%N ++ runes_of_ascii "
-`" ++ [28040; 24687; 31867; 22411]%N ++ runes_of_ascii "`
-,
-    i32 len @lengthOf( repeatCount ) `line1
-line2`,
-    @tag(
-//x
-// a // b
-42//x
-)	BodyLength	,	}")).
-Eval vm_compute in ("<<<M23>>>" ++ check (runes_of_ascii "root // c
-packet msg_type	{ repeat// packet A { u8 x, }
-A { repeat a1
-    { repeat  len// trailing space 
-, }
-    ,pack string_,	zchar[ 7 ] msg_type  @lengthOf(u
-) , } ,
-    repeat
-zchar[ // `tick` ""quote"" 'q'
-00] tag, u64 o@calculatedFrom(""a\\""
-    // trailing space 
-    ) ,  }
-    packet charz {@tag( 0
-) // c
-repeat
-    // a // b
-    u {
-char[007 ] T,}, repeatCount @calculatedFrom( ""\n""
-)
-,
-}packet
-trueish {
-@calculatedFrom( ""a\\"") @rightPad
-    ('0' ) // `tick` ""quote"" 'q'
-@lengthOf( BodyLength
-) string asx @lengthOf( A	),
-//x
-/// triple
-@rightPad (
-' '
-) match pack
-    // @lengthOf(
-    as leftPad
-{  [
-1 ]// a // b
-:
-body , [ ""a	b""]
-:msg_type , // `tick` ""quote"" 'q'
-10 :calculatedFrom ,7 : packetx,
-""" ++ [233]%N ++ runes_of_ascii "t" ++ [233]%N ++ runes_of_ascii """
-: roots ,	}
-    ,@calculatedFrom(""1""
-    )  repeat roots
-    // c
-    u8x
-    ,}
-")).
-Eval vm_compute in ("<<<M638>>>" ++ check (runes_of_ascii "MetaData roots {	charz matchKey //
-`two words`
-    , char[	65535 ] //	t
-T `// not a comment`
-, char[]
-tag , string
-/// triple
-// @lengthOf(
-a1 `two words`
-,
-} root packet stringy
-    // trailing space 
-    { repeat roots {repeat calculatedFrom	len
-// " ++ [128512]%N ++ runes_of_ascii " emoji
-// " ++ [128512]%N ++ runes_of_ascii " emoji
-,
-} ,  @tag( 42
-)  @rightPad(/// triple
-'0' )@tag(
-007
-)  f32 lengthOf @lengthOf( tag ) `crlf
-line`
-,	int32 chars,zchar[ 3
-]
-rootA @calculatedFrom(
-""a\""b"" )// c
-, @rightPad
-( ) @calculatedFrom(""" ++ [128512]%N ++ runes_of_ascii """
-) @tag(	0123456789 ) Foo {char[] u8x	@lengthOf( charz
-    // @lengthOf(
-    ) , A	, } ,
-    match repeatCount as
-body{
-""\n"" :  T, [
-    """ ++ [128512]%N ++ runes_of_ascii """, 255
-// @lengthOf(
-/// triple
-] : lengthOf , } ,
-@calculatedFrom(""x y"" )
-    u8
-packetx
-@calculatedFrom(//x
-""CRC32"" // a // b
-) `tab	here` ,
-    }
-")).
-Eval vm_compute in ("<<<M303>>>" ++ check (runes_of_ascii "root packet tag
-    //x
-    { @tag(
-// trailing space 
-//x
-4294967296) zchar[ 255
-    ]
-    Foo	@calculatedFrom( ""\" ++ [233]%N ++ runes_of_ascii """  )// trailing space 
-, @lengthOf( // packet A { u8 x, }
-packetx
-) @tag( 1) @lengthOf( string_ ) // a // b
-zchar[
-255] u	, Z9_ {repeat stringy  {repeat
-body , }
-    ,
-    // `tick` ""quote"" 'q'
-    } ,
-    //
-    repeat uint8  a1 , i64// c
-tag  ,
-    // " ++ [128512]%N ++ runes_of_ascii " emoji
-    }
-    packet uint8x { // a // b
-@lengthOf( BodyLength	) @lengthOf( int )
-    //
-    uint64 As `{ , }` ,
-    char[
-65535	] zchar
-// " ++ [27880; 37322]%N ++ runes_of_ascii "
-// trailing space 
-@lengthOf(
-    stringy ) `tab	here` ,rootA @calculatedFrom( // a // b
-""x y"" ) , repeat options1	{ i8i8 calculatedFrom,
-// " ++ [27880; 37322]%N ++ runes_of_ascii "
-// `tick` ""quote"" 'q'
-}, repeat char[ 0]
-    MetaDataX ,} //")).
-Eval vm_compute in ("<<<M1299>>>" ++ check (runes_of_ascii "root packet
-pack { } MetaData falsey  {	char[]A`// not a comment`
-, }  packet uint8x{
-repeat o
-    { u64 string_@calculatedFrom( // " ++ [128512]%N ++ runes_of_ascii " emoji
-""" ++ [233]%N ++ runes_of_ascii "t" ++ [233]%N ++ runes_of_ascii """ ) , }, repeat string_ `" ++ [28040; 24687; 31867; 22411]%N ++ runes_of_ascii "`
-//	t
-// @lengthOf(
-,  repeat u { packetx @lengthOf( len) `doc`,
-}
-,
-@lengthOf(u8x ) float32	MetaDataX
-@calculatedFrom( """ ++ [233]%N ++ runes_of_ascii "t" ++ [233]%N ++ runes_of_ascii """ ) , uint8 MetaDataX `it's`
-    ,
-@rightPad (	'\x00' ) repeat
-    // a // b
-    crc
-{
-    x_y_z
-@lengthOf(As)  `line1
-line2`
-,i32
-    //	t
-    repeatCount,
-// a // b
-// @lengthOf(
-repeat Pad  { repeat string_ `" ++ [233]%N ++ runes_of_ascii "` , leftPad
-    { char[]
-float , }
-,	}  , }
-    , @calculatedFrom( ""it's""  ) zchar[ 42 ]A @lengthOf( matchKey ) , roots@calculatedFrom( ""CRC32"" ) // @lengthOf(
-`a\`, }
-")).
-Eval vm_compute in ("<<<M1176>>>" ++ check (runes_of_ascii "
-options {leftPad
-    =
-""{,}""f32a = true
-trueish
-    = zchar[ 007]
-    ;	crc
-// " ++ [27880; 37322]%N ++ runes_of_ascii "
-// @lengthOf(
-= ""`tick`"" ;// c
-} //x
-root	packet
-    body { asx @lengthOf(	f32a // `tick` ""quote"" 'q'
-) `` , f64 body @lengthOf(
-int) , zchar[ 255] BodyLength , zchar[ 7	]
-    leftPad
-/// triple
-// packet A { u8 x, }
-`line1
-line2`, @lengthOf(  asx )u128
-    @lengthOf(
-BodyLength )	`// not a comment`
-,
-    @lengthOf( As )
-char[ 42	] _x
-@lengthOf(  i8i8)`line1
-line2` , char[ 1 //	t
-]
-    // a // b
-    options1 @calculatedFrom(""packet"" )`say ""hi""`
-, }
-options
-{ leftPad= 007
-;
-charz =false repeatCount =
-    ""// no comment"" u// a // b
-= 0123456789 }
-")).
-Eval vm_compute in ("<<<M985>>>" ++ check (runes_of_ascii "MetaData
-    i64_
-    {
-    int
-rootA
-/// triple
-// @lengthOf(
-, char[ 0 ]
-    A
-    `{ , }` , u128 rootA`doc`
-, // @lengthOf(
-zchar[//x
-42  ] i8i8`it's` ,
-    /// triple
-    char[ 00	] u , zchar[ 0123456789] A `line1
-line2`	,	}	packet Z9_
-{ @lengthOf(
-pack
-    )
-@calculatedFrom(	""a\\"") BodyLength @calculatedFrom( ""\" ++ [233]%N ++ runes_of_ascii """)
-    , @rightPad ( ) @tag( 1 )@lengthOf(
-    i8i8  )
-    char[]  trueish , f32a
-@calculatedFrom( """ ++ [28040; 24687]%N ++ runes_of_ascii """	) `u8 x,` ,	@tag(
-    /// triple
-    65535 ) string trueish , } packet
-BodyLength
-{ stringy @lengthOf( Z9_ ) ,
-    char[ 007
-]metadata
-@calculatedFrom(
-/// triple
-// @lengthOf(
-"""" )
-`" ++ [233]%N ++ runes_of_ascii "`, }
-")).
-Eval vm_compute in ("<<<M1341>>>" ++ check (runes_of_ascii "// packet A { u8 x, }
-packet zchar { uint32 // packet A { u8 x, }
-matchKey , i32 leftPad @calculatedFrom(
-    //	t
-    ""1"" ) `crlf
-line` ,
-_x{  f32a @calculatedFrom(""`tick`""// " ++ [128512]%N ++ runes_of_ascii " emoji
-) ,// packet A { u8 x, }
-char metadata `u8 x,` ,
-    // c
-    char[]
-a1 @lengthOf(float )  `a\`
-, } ,
-@lengthOf(
-A	)/// triple
-zchar[ //
-0123456789
-]Header @lengthOf( o) `" ++ [28040; 24687; 31867; 22411]%N ++ runes_of_ascii "`// c
-,	@tag(00) x `it's` ,
-i8 msg_type @lengthOf(
-len) `
-` , @tag(
-    00
-    ) repeat matchKey// a // b
-{
-    string// " ++ [128512]%N ++ runes_of_ascii " emoji
-u `" ++ [28040; 24687; 31867; 22411]%N ++ runes_of_ascii "` ,u8 u @calculatedFrom( ""a\""b"" ) ,
-i8 len, packetx, }	,
-    } options
-    { Foo = 0
-;
-    }
-")).
-Eval vm_compute in ("<<<M4473>>>" ++ check (runes_of_ascii "  root
-packet tag {
-@lengthOf(uint8x
-    )
-
-@calculatedFrom(""1""  )
-options1
-    ,
-}
-MetaData	Z9_  {
-string options1
-    `crlf
-line` 	 //	t
-  , 
-charz
-string_ , 
-}
-
-    root
-    packet
-    float 
-{ @calculatedFrom(	""packet"" )
-	chars 
-{ 	 //x
-repeat chars
-
-    {	i8
-
-    matchKey
-
-    `a\`, } , } //	t
-,
-
-    i32 len@lengthOf(	u8x
-	)
-    // trailing space 
-  	// " ++ [128512]%N ++ runes_of_ascii " emoji
-		, @lengthOf(	repeatCount )@tag( 
-	// @lengthOf(
-
-  //	t
-	0123456789
-
-    )
-    @tag(
-
-    007 )
-
-    uint64
-	    //	t
+    body
+    {u16 roots `say ""hi""` , char[ 65535]
 o
-    @calculatedFrom(
-	""" ++ [28040; 24687]%N ++ runes_of_ascii """ 	 // a // b
-) , }
+,
+    uint32 Z9_
+, char trueish `crlf
+line`
+, }
+packet crc // packet A { u8 x, }
+{
+    u128 ,
+repeat char[]trueish ,	string	asx  @lengthOf( zchar) // c
+`crlf
+line` , int
+{ int
+    u//
+,
+}
+,  @tag(10 )
+    // @lengthOf(
+    zchar[
+//x
+//x
+65535 ] /// triple
+zchar@calculatedFrom( """ ++ [28040; 24687]%N ++ runes_of_ascii """ ) `a\`
+    ,@rightPad ('\x00' ) string crc@lengthOf(
+    // trailing space 
+    o )
+    ,match
+rootA as len
+    {[ 10  , 3// " ++ [27880; 37322]%N ++ runes_of_ascii "
+, ""\n"" , """ ++ [233]%N ++ runes_of_ascii "t" ++ [233]%N ++ runes_of_ascii """
+,
+    ""packet""  ] :
+    // a // b
+    leftPad , 65535:
+pack } , zchar[ 65535 ]
+    //x
+    asx `u8 x,`
+    // a // b
+    , i16
+// @lengthOf(
+// " ++ [27880; 37322]%N ++ runes_of_ascii "
+roots`u8 x,` ,
+// " ++ [128512]%N ++ runes_of_ascii " emoji
+//
+@leftPad ( )	f64 Packet
+    ,
+    } packet tag
+    { @rightPad //
+( '0' )repeat char[00 ] crc	,
+    } packet stringy	{ char[] roots`" ++ [233]%N ++ runes_of_ascii "` //	t
+,
+    }")).
+Eval vm_compute in ("<<<M1151>>>" ++ check (runes_of_ascii "
+packet
+    int{ repeat  o
+    `say ""hi""` ,
+    // " ++ [128512]%N ++ runes_of_ascii " emoji
+    @leftPad ( '\x00' )T
+    `// not a comment`,
+@tag(
+    007 // trailing space 
+) repeat uint8x { zchar[	7 ] a1 ,char[] msg_type @lengthOf( calculatedFrom
+)
+`two words`
+,
+string_	A // packet A { u8 x, }
+,
+// " ++ [128512]%N ++ runes_of_ascii " emoji
+// " ++ [27880; 37322]%N ++ runes_of_ascii "
+} , repeat// " ++ [27880; 37322]%N ++ runes_of_ascii "
+char falsey
+, repeat /// triple
+zchar[
+    0123456789 ] repeatCount ,match trueish as As{
+[// " ++ [128512]%N ++ runes_of_ascii " emoji
+""a\\"", """ ++ [233]%N ++ runes_of_ascii "t" ++ [233]%N ++ runes_of_ascii """
+    ,  """ ++ [28040; 24687]%N ++ runes_of_ascii """ ,
+    // trailing space 
+    7 , """ ++ [233]%N ++ runes_of_ascii "t" ++ [233]%N ++ runes_of_ascii """, """ ++ [28040; 24687]%N ++ runes_of_ascii """ ] :
+    int ,0123456789 :
+A ,
+[00 , """ ++ [128512]%N ++ runes_of_ascii """
+    ] :  Header
+, // packet A { u8 x, }
+""a\\"" : u, } , } packet
+// c
+// @lengthOf(
+body
+    {
+    float32 Header `doc` ,roots // `tick` ""quote"" 'q'
+@calculatedFrom( """" )
+,
+int32 metadata ,// `tick` ""quote"" 'q'
+}
+options
+    { repeatCount =
+    ""abc"" ; } 	 ")).
+Eval vm_compute in ("<<<M54>>>" ++ check (runes_of_ascii "root packet calculatedFrom
+{ /// triple
+@calculatedFrom( // packet A { u8 x, }
+""{,}"" ) match asx
+as i8i8 { ""CRC32"" :f32a	,
+    ""// no comment""	:Packet
+    ,// trailing space 
+}
+,
+    repeat zchar[ 7 ] len , //
+match	options1// c
+as string_	{""" ++ [128512]%N ++ runes_of_ascii """ : metadata ,	[""\n""
+// `tick` ""quote"" 'q'
+//
+,
+    ""CRC32"" , ""a\""b""]
+:
+// " ++ [128512]%N ++ runes_of_ascii " emoji
+// " ++ [128512]%N ++ runes_of_ascii " emoji
+x_y_z // " ++ [27880; 37322]%N ++ runes_of_ascii "
+, 42
+: string_	},@lengthOf(
+msg_type) string Pad
+// trailing space 
+// @lengthOf(
+`tab	here` ,
+f32a
+, match  Logon as stringy { 007
+    :
+    metadata	, [ 255 , 10 ] : matchKey, [
+10 ,""1"",	""`tick`"" , 0]:roots , 255
+// @lengthOf(
+// c
+: o,	[ 1 ]
+: msg_type  , 0123456789
+: falsey	} , } root packet
+crc { }
+    options
+    { falsey =
+false ;len =
+""\" ++ [233]%N ++ runes_of_ascii """// " ++ [27880; 37322]%N ++ runes_of_ascii "
+;A
+=
+""a	b""	lengthOf	= ""1""}
 ")).
-Eval vm_compute in ("<<<M3798>>>" ++ check (runes_of_ascii "options {
-    string_ = 0123456789;
-    u = """ ++ [28040; 24687]%N ++ runes_of_ascii """;
+Eval vm_compute in ("<<<M3969>>>" ++ check (runes_of_ascii "options {
+
+    o	/// triple
+	  =	'0'  ;} packet 	 // @lengthOf(
+u128{ 
+// @lengthOf(
+	// `tick` ""quote"" 'q'
+		@calculatedFrom( ""{,}"" )
+uint16
+pack
+    @calculatedFrom(  """ ++ [233]%N ++ runes_of_ascii "t" ++ [233]%N ++ runes_of_ascii """	)
+
+,	}
+	packet	A
+
+    { //x
+  u8
+
+    chars
+
+    @lengthOf(
+BodyLength) 
+,
+
+lengthOf @calculatedFrom( //x
+	""// no comment""
+
+    )
+	, x_y_z{
+string Pad `" ++ [233]%N ++ runes_of_ascii "`, 
+  // " ++ [27880; 37322]%N ++ runes_of_ascii "
+len  { zchar[ 0123456789
+]	T
+
+    ,
+
+match	// a // b
+u128
+
+    as
+metadata	{
+
+3 
+:  u128
+	,
+
+    ""\n""
+:
+	x[ """ ++ [233]%N ++ runes_of_ascii "t" ++ [233]%N ++ runes_of_ascii """,
+
+    //
+  	// " ++ [27880; 37322]%N ++ runes_of_ascii "
+		""packet""
+	] :  // @lengthOf(
+  	tag  10 :  options1 ,
+
+    ""abc""
+
+    : // trailing space 
+u ,
+    }
+, }
+
+    ,
+tag @calculatedFrom(
+	    // packet A { u8 x, }
+  """"
+
+)  `it's`  ,  }  ,
+
+}// " ++ [27880; 37322]%N ++ runes_of_ascii "
+")).
+Eval vm_compute in ("<<<M1194>>>" ++ check (runes_of_ascii "packet asx
+{// c
+@calculatedFrom(
+""\" ++ [233]%N ++ runes_of_ascii """ )
+crc
+    { int8 zchar @calculatedFrom(""" ++ [128512]%N ++ runes_of_ascii """ )
+,
+    } // trailing space 
+, roots@lengthOf( // a // b
+metadata )`` ,
+@calculatedFrom(
+""1"" //
+)@lengthOf(
+    matchKey) //	t
+@calculatedFrom( """ ++ [233]%N ++ runes_of_ascii "t" ++ [233]%N ++ runes_of_ascii """ )
+    // packet A { u8 x, }
+    u Header	, u128 ,	match _x as
+    msg_type{ 1 :
+    BodyLength	,42
+    : packetx	, //	t
+[ ""{,}"" ] :// c
+chars , //
+[ ""`tick`"" ,	0 ,
+    """ ++ [233]%N ++ runes_of_ascii "t" ++ [233]%N ++ runes_of_ascii """ ,
+// a // b
+// " ++ [27880; 37322]%N ++ runes_of_ascii "
+65535
+//
+// trailing space 
+, ""packet"", ""{,}"" ] : chars ,	3
+/// triple
+// @lengthOf(
+: packetx ,	7
+//
+// packet A { u8 x, }
+:crc , } , @lengthOf(
+    len )repeatCount { zchar[ 65535
+    ] x_y_z
+,	} , f32a
+    @lengthOf( body  )
+    ,  } //x")).
+Eval vm_compute in ("<<<M3903>>>" ++ check (runes_of_ascii "root 	 //	t
+    packet  BodyLength{
+
+zchar[
+
+10 ]
+    u128,
+
+uint8
+
+zchar``	,repeat  falsey ,
+	float64
+
+    chars
+
+@calculatedFrom(	""" ++ [128512]%N ++ runes_of_ascii """
+) , char[] 
+matchKey ,
+repeat  //x
+
+uint16
+matchKey 
+, @calculatedFrom(
+    ""CRC32""
+	)
+
+    char[ 3
+]
+u
+`" ++ [28040; 24687; 31867; 22411]%N ++ runes_of_ascii "` ,
+@leftPad(
+'0' 
+	//	t
+    	)  u64
+
+charz @calculatedFrom(
+""" ++ [128512]%N ++ runes_of_ascii """
+    )
+,
+
+    }
+    root
+
+    packet chars//
+{} MetaData
+    Z9_
+
+{
+
+    zchar[255 
+] 
+_x, int32
+f32a
+
+,
+int8 asx
+`` 
+,
+
+o packetx // `tick` ""quote"" 'q'
+,	}
+options
+
+    // trailing space 
+	  // c
+  { 
+A =
+4294967296  
+      //
+  // packet A { u8 x, }
+	; Foo 
+=
+""x y"" ;	Foo
+
+    =
+
+' ' }  //	t")).
+Eval vm_compute in ("<<<M4348>>>" ++ check (runes_of_ascii "packet 
+  // packet A { u8 x, }
+// " ++ [27880; 37322]%N ++ runes_of_ascii "
+matchKey {  }
+    packet
+    string_	{	matchKey
+
+@lengthOf(
+asx) 
+, 
+@rightPad (
+' '  )	metadata, 
+    // a // b
+	  // @lengthOf(
+  o  //
+  chars
+    , uint16	tag	`u8 x,` , repeat
+	float32
+	Logon
+
+    `two words` ,  /// triple
+	  matchKey @calculatedFrom(
+""a	b"" ) `doc`, repeat
+packetx
+	a1	, 
+}	MetaData
+
+Packet //
+  {
+    char[]  pack 
+,string	zchar ,zchar[
+
+//	t
+    	// trailing space 
+    1  ]
+x_y_z ,
+	int64 charz`say ""hi""`
+
+,u32
+lengthOf
+	`doc` 
+,
+}	options
+    { 
+a1 =	int16;
+    crc
+	=
+
+    ' '
+    ; tag
+	=char[ 42 ]	leftPad 
+=
+
+true  ;}
+
+")).
+Eval vm_compute in ("<<<M3643>>>" ++ check (runes_of_ascii "options {
+    LittleEndian = false;
+    ArrayPrefixLenType = u8;
+    FixedStringPadChar = '0';
+}
+packet Order {
+    InNote94 {
+        f32 f1,
+        f64 Side2,
+        repeat InTail47 {
+            char[] seqNo,
+            char[] Tail,
+            char[] lastPx,
+        },
+    },
+    zchar[7] f1,
+    u8 Side2,
+}
+root packet Reject {
+    repeat char[4] Flags,
+    InPrice63 {
+        InSeqno41 {
+            repeat i8 OrderId,
+            repeat i32 clOrdID,
+            char[9] tag7,
+            char[] lastPx,
+        },
+        Order,
+        uint8 Side2,
+    },
+}
+")).
+Eval vm_compute in ("<<<M4301>>>" ++ check (runes_of_ascii "options {
+    msg_type = 65535;
+    a1 = """ ++ [128512]%N ++ runes_of_ascii """;
+    Foo = ""\" ++ [233]%N ++ runes_of_ascii """
+    matchKey = '0';
+    chars = """ ++ [28040; 24687]%N ++ runes_of_ascii """
+    //	t
+}
+
+packet lengthOf {
+    // c
+    //x
+}
+
+MetaData body {
+    A len `" ++ [28040; 24687; 31867; 22411]%N ++ runes_of_ascii "`,
+}
+
+packet o {
+    @rightPad('\x00')
+    int roots,
+    repeat u8x `tab	here`,
+    i32 x_y_z @lengthOf(Logon) `line1
+        line2`,
+    _x Z9_,
+    @lengthOf(zchar)
+    i32 msg_type `doc`,
+    @rightPad(' ')
+    i8 options1,
+    @lengthOf(packetx)
+    charz @lengthOf(o),
+    @rightPad(' ')
+    match packetx as leftPad {
+        [""{,}"", """ ++ [128512]%N ++ runes_of_ascii """] : charz,
+    },
+}")).
+Eval vm_compute in ("<<<M1360>>>" ++ check (runes_of_ascii "
+options { packetx = '\x00' o =
+    // `tick` ""quote"" 'q'
+    ""abc"" lengthOf // @lengthOf(
+=
+    255 zchar
+    =""" ++ [128512]%N ++ runes_of_ascii """
+Pad// packet A { u8 x, }
+= string
+;
+}
+root packet
+options1//x
+{ calculatedFrom
+    o  ,
+    x
+    @lengthOf( leftPad // " ++ [128512]%N ++ runes_of_ascii " emoji
+)
+    , match
+    _x as
+stringy { 3
+: i8i8 ,
+} ,
+    string T , }	root packet
+uint8x
+{ len
+/// triple
+// a // b
+``,} packet matchKey {match calculatedFrom
+as
+    // " ++ [27880; 37322]%N ++ runes_of_ascii "
+    Packet { [ """ ++ [28040; 24687]%N ++ runes_of_ascii """ , ""packet""//
+]:// packet A { u8 x, }
+rootA ,}	,	}options {
+    uint8x = false ; }
+")).
+Eval vm_compute in ("<<<M1191>>>" ++ check (runes_of_ascii "packet
+    // @lengthOf(
+    T { char[ 007 ] leftPad
+@calculatedFrom( ""`tick`"" ) `{ , }`, f32 int , @calculatedFrom( """ ++ [233]%N ++ runes_of_ascii "t" ++ [233]%N ++ runes_of_ascii """	)
+int // a // b
+{int16	Packet ,  char[ 255
+]
+    Logon , char[ 0123456789] T /// triple
+@lengthOf( i64_
+) , i8
+    // packet A { u8 x, }
+    crc `tab	here`,
+    }
+, char[ 0 ] string_	, int8 msg_type `" ++ [28040; 24687; 31867; 22411]%N ++ runes_of_ascii "` // `tick` ""quote"" 'q'
+, int64 u// a // b
+`tab	here`
+,
+repeat
+u128  ,
+float64
+i64_ @calculatedFrom( """ ++ [28040; 24687]%N ++ runes_of_ascii """ )
+    , //
+@lengthOf( crc ) Header chars , float32	x, }
+")).
+Eval vm_compute in ("<<<M3629>>>" ++ check (runes_of_ascii "options {
+    StringPrefixLenType = u8;
+    ArrayPrefixLenType = u32;
+}
+packet Quote {
+    u32 Ref,
+    InNote74 {
+        u8 pad0,
+    },
+}
+packet Ack {
+    repeat string OrderId,
+}
+packet Logout {
+    zchar[7] venue,
+    char[12] Px,
+    string count,
+    char[] Tail,
+    char[] Qty,
+    Quote,
+}
+root packet Trade {
+    zchar[2] price,
+    u32 x,
+    u32 lastPx @lengthOf(Body),
+    match x as Body {
+        148 : Ack,
+        171 : Quote,
+        15 : Logout,
+    },
+}
+")).
+Eval vm_compute in ("<<<M612>>>" ++ check (runes_of_ascii "root
+//	t
+// @lengthOf(
+packet int //x
+{ @rightPad ( '0' ) match Packet as x_y_z
+{ 3 //	t
+:zchar // a // b
+, ""1""
+:
+x //
+, 42 : a1	, [ """ ++ [233]%N ++ runes_of_ascii "t" ++ [233]%N ++ runes_of_ascii """ ]:	matchKey
+    ,42: x_y_z
+[ ""a\""b"",
+    7	, // packet A { u8 x, }
+""it's"" ,
+    // c
+    007	, ""a\""b"" ] :
+    Foo
+    ,
+    },} // c
+MetaData Foo { u32 chars//	t
+`it's` //
+,u32
+    falsey
+, Header
+trueish
+,
+    tag As, } options { asx=u16
+    ; }
+packet
+    options1
+{repeat char[255  ] charz , }options { }")).
+Eval vm_compute in ("<<<M3974>>>" ++ check (runes_of_ascii "packet tag {
+    @calculatedFrom(""" ++ [28040; 24687]%N ++ runes_of_ascii """)
+    A `" ++ [233]%N ++ runes_of_ascii "`,
+    // a // b
+    match u as len {
+        [42, """ ++ [233]%N ++ runes_of_ascii "t" ++ [233]%N ++ runes_of_ascii """] : As,
+        42 : string_,
+        ""CRC32"" : body,
+        ""x y"" : x,
+        [
+            007, 4294967296, ""{,}"", """", """ ++ [28040; 24687]%N ++ runes_of_ascii """,
+            ""it's"", """ ++ [128512]%N ++ runes_of_ascii """
+        ] : u,
+        """ ++ [28040; 24687]%N ++ runes_of_ascii """ : _x,
+    },
+    @lengthOf(rootA)
+    u128 `doc`,// " ++ [27880; 37322]%N ++ runes_of_ascii "
 }
 
 options {
-    f32a = 1;
+    falsey = string
+    string_ = int8;
 }
 
-packet u8x {
-    float32 A @calculatedFrom(""`tick`""),
-    i16 o `" ++ [233]%N ++ runes_of_ascii "`,
-    int64 Logon `
-        `,
-    @calculatedFrom(""`tick`"")
-    @tag(42)
-    @leftPad()
-    int8 len,
-    repeat char[3] crc,
-    char[] Packet @lengthOf(pack) `" ++ [233]%N ++ runes_of_ascii "`,/// triple
-}
-
-// @lengthOf(
-// @lengthOf(
-packet MetaDataX {
-    match u8x as Header {
-        0 : body,
-        [007, ""\n"", ""\n"", """ ++ [128512]%N ++ runes_of_ascii """, """ ++ [28040; 24687]%N ++ runes_of_ascii """] : leftPad,
-        [""x y""] : chars,
-        [10, 3, ""`tick`""] : Header,
-    },
+options {
+    // c
+    charz = ""CRC32""
 }")).
-Eval vm_compute in ("<<<M4300>>>" ++ check (runes_of_ascii "root
-	packet A{	// packet A { u8 x, }
-	char[] msg_type
-`two words`
-
-,// a // b
-
-@calculatedFrom(
-""abc""
-    )@leftPad  (	'\x00')
-	@calculatedFrom(""x y"" )
-    repeat
-//x
-
-	// @lengthOf(
-
-int64  chars 
-,zchar[
-
-    1 ]
-    _x @calculatedFrom(
-
-""1"" )
-
-    `doc`
-    ,
-        // c
-
-  //x
-  }
-packet	stringy
-    {
-
-int8
-
-    calculatedFrom @lengthOf(
-_x
-
-    )
-`line1
-line2`
-    ,
-	@tag(42 )  char[	10 ]  //
-Logon  @lengthOf(
-roots
-
-    )
-
-`" ++ [233]%N ++ runes_of_ascii "`// " ++ [128512]%N ++ runes_of_ascii " emoji
-    , 
-i32	//
-
-  options1,
-i16
-    x_y_z
-	, 
-}
-")).
-Eval vm_compute in ("<<<M155>>>" ++ check (runes_of_ascii "packet T {
-    @lengthOf( MetaDataX )match
-    Packet as a1 { [ ""1""] : zchar ""{,}""
-    : _x ,} ,// @lengthOf(
-char[ 007 ]// a // b
-u128@lengthOf(
-zchar)
-// a // b
-// packet A { u8 x, }
-,string_ , @leftPad ( ' ')match MetaDataX as u128 { [ ""it's"" ,7 , 65535
-, 65535]	:  chars,""" ++ [28040; 24687]%N ++ runes_of_ascii """// c
-: u , 42 : zchar , }
-    , } options // `tick` ""quote"" 'q'
-{
-    matchKey =
-""a\""b""
-    }	MetaData
-    options1 { i16
-len , char[ 7
-] // packet A { u8 x, }
-crc ,u16 asx `say ""hi""` ,i64 zchar, } // " ++ [27880; 37322]%N)).
-Eval vm_compute in ("<<<M1277>>>" ++ check (runes_of_ascii "MetaData o{ i16 len // @lengthOf(
-, }  packet msg_type{ chars roots
-    // @lengthOf(
-    , // trailing space 
-repeat char[ 0  ] packetx `{ , }` //x
-, @rightPad( '\x00'	)
-    // @lengthOf(
-    repeat i64 x
-, match packetx // " ++ [128512]%N ++ runes_of_ascii " emoji
-as  packetx{ 65535:x [ ""\n""
-    // a // b
-    , 3 ]:Logon,  } , BodyLength @calculatedFrom(
-""{,}"" )
-    // trailing space 
-    , repeat pack// c
-Z9_ , x
-    i8i8 ,
-} options
-    { int=
-    ""abc"" ; u
-= ""abc""	int = '0'
-;
-    }
-")).
-Eval vm_compute in ("<<<M820>>>" ++ check (runes_of_ascii "MetaData uint8x
-{ stringy charz ,	char[ 00] Z9_
-    //
-    `{ , }`
-// @lengthOf(
-// a // b
-, char[ 0123456789 ]charz	, } packet msg_type{repeat char[ 42 ]	trueish `// not a comment` ,	@lengthOf( A
-//
-//
-) zchar[ 4294967296//x
-]string_
-// " ++ [27880; 37322]%N ++ runes_of_ascii "
-//x
-,
-//x
-// @lengthOf(
-repeat MetaDataX `// not a comment`,  }
-    packet A{ As{ char[4294967296]
-// c
-// packet A { u8 x, }
-zchar @lengthOf( Foo ) `a\`,
-// trailing space 
-// packet A { u8 x, }
-}
-,  }
-")).
-Eval vm_compute in ("<<<M4411>>>" ++ check (runes_of_ascii "options {
-    Logon = int32;
-    x_y_z = ""1""
-    f32a = 007
-    BodyLength = zchar[3];
-    MetaDataX = false;
-}
-
-packet A {
-    match A as A {
-        42 : _x,
+Eval vm_compute in ("<<<M4586>>>" ++ check (runes_of_ascii "root packet crc {
+    @leftPad('0')
+    @lengthOf(float)
+    roots Logon `u8 x,`,
+    char[3] repeatCount `a\`,
+    match uint8x as msg_type {
+        10 : body,
+        0123456789 : o,
     },
+    repeat x {
+        uint8 roots @calculatedFrom(""abc"") `" ++ [28040; 24687; 31867; 22411]%N ++ runes_of_ascii "`,
+    },
+}
+
+packet calculatedFrom {
+    uint8 MetaDataX `// not a comment`,
+}
+
+packet crc {
+    Z9_ {
+        repeat crc `doc`,
+        Z9_ ``,
+    },
+}
+// a // b")).
+Eval vm_compute in ("<<<M4424>>>" ++ check (runes_of_ascii "MetaData Header {
+    int64 zchar `u8 x,`,
+    Header u8x,
+    zchar[65535] u,
+    A options1 `it's`,
+    zchar[007] MetaDataX,
+    zchar[0] As,
+}
+
+MetaData Logon {
+    char[] rootA,
 }
 
 packet int {
-    //
-    _x asx,
+    f32 falsey,
 }
 
-packet trueish {
-    float @calculatedFrom(""""),
-    zchar[65535] Pad @calculatedFrom(""a	b"") `
-    `,
+MetaData float {
+    len leftPad,
+    A Foo `tab	here`,
+    char[65535] T `line1
+    line2`,
 }
 
 options {
     // " ++ [128512]%N ++ runes_of_ascii " emoji
-    f32a = zchar[42];
-    body = ""`tick`"";//
-    As = true
-    tag = 3;
-    packetx = true
+    // " ++ [27880; 37322]%N ++ runes_of_ascii "
+    float = '0';
+    float = true;
+    Foo = ""\n""
 }")).
-Eval vm_compute in ("<<<M3522>>>" ++ check (runes_of_ascii "// top
-packet
-    // c0
-float
-    // c1
-{
-    // c2
-repeat
-    // c3
-i8i8
-    // c4
-MetaDataX
-    // c5
-`it's`
-    // c6
-,
-    // c7
-rootA
-    // c8
-,
-    // c9
-repeat
-    // c10
-int8
-    // c11
-int
-    // c12
-,
-    // c13
-match
-    // c14
-repeatCount
-    // c15
-as
-    // c16
-x_y_z
-    // c17
-{
-    // c18
-""{,}""
-    // c19
-:
-    // c20
-Logon
-    // c21
-,
-    // c22
+Eval vm_compute in ("<<<M4046>>>" ++ check (runes_of_ascii "root packet u {
+    uint8x falsey,
+    repeat char[0] o `u8 x,`,
+    @rightPad('\x00')
+    match leftPad as u {
+        7 : crc,
+        [""`tick`"", 0123456789] : Packet,
+        [42] : msg_type,
+        3 : tag,
+    },/// triple
+    @calculatedFrom(""1"")
+    char[1] leftPad,
 }
-    // c23
-,
-    // c24
-}
-    // c25
-")).
-Eval vm_compute in ("<<<M4533>>>" ++ check (runes_of_ascii "packet lengthOf {
-    f64 lengthOf @lengthOf(a1) `" ++ [28040; 24687; 31867; 22411]%N ++ runes_of_ascii "`,
-    uint64 Logon `" ++ [233]%N ++ runes_of_ascii "`,
-    string Pad @calculatedFrom(""\n""),
-    zchar[0123456789] Foo @lengthOf(charz) `// not a comment`,
-    @rightPad()
-    match falsey as Packet {
-        """" : u,
-        65535 : float,
-        [4294967296] : trueish,
-        [10, 0123456789] : Logon,
-        1 : roots,
-        [7, 00, ""\" ++ [233]%N ++ runes_of_ascii """] : float,
-    },
+
+packet o {
+    char[] falsey,
+    repeat i8 f32a `tab	here`,
+    float64 pack @calculatedFrom(""\" ++ [233]%N ++ runes_of_ascii """),
 }")).
-Eval vm_compute in ("<<<M4422>>>" ++ check (runes_of_ascii "  // " ++ [128512]%N ++ runes_of_ascii " emoji
-  	options
-	{	}
+Eval vm_compute in ("<<<M3817>>>" ++ check (runes_of_ascii "MetaData
 
-    packet
+u
+{
+}options
 
-    a1{ 
-// packet A { u8 x, }
-  //x
-@lengthOf(
-    Foo ) 
-pack {  repeat
-	matchKey  // " ++ [27880; 37322]%N ++ runes_of_ascii "
+{
+	    // c
+	// @lengthOf(
+    float = int8 ;
 
-	leftPad ,
-zchar[7 ]
-
-    zchar  `{ , }`	// c
-
-, charz 
-@lengthOf( 	 // " ++ [128512]%N ++ runes_of_ascii " emoji
-	x_y_z
-)  `
-` 
-,  }
-,
-	}root packet
-
-roots{}options
-{ calculatedFrom=
-	false
-    ; o = int64; u
+    rootA
+    = false ; As
 =
-	""a\\""
-zchar = 	 // packet A { u8 x, }
-		42 
-;}")).
-Eval vm_compute in ("<<<M3774>>>" ++ check (runes_of_ascii "packet repeatCount {
-    @rightPad(' ')
-    char[42] Header @calculatedFrom(""a\\""),
-    @tag(10)
-    i64 options1 @calculatedFrom(""x y""),
-    Packet {
-        i64 lengthOf @calculatedFrom(""abc""),
-        repeat zchar[00] i64_ `u8 x,`,
-    },
-    string tag,
-    string o `" ++ [233]%N ++ runes_of_ascii "`,
-    repeat char[42] a1 `doc`,
-    string leftPad @calculatedFrom(""a\\""),
-}")).
-Eval vm_compute in ("<<<M816>>>" ++ check (runes_of_ascii "// " ++ [128512]%N ++ runes_of_ascii " emoji
-options{
-}
-    packet a1{
-// packet A { u8 x, }
-//x
-@lengthOf(Foo )
-    pack {
-repeat matchKey // " ++ [27880; 37322]%N ++ runes_of_ascii "
-leftPad,zchar[7 ] zchar `{ , }` // c
-,
-charz @lengthOf( // " ++ [128512]%N ++ runes_of_ascii " emoji
-x_y_z
-    )
-    `
-`
-    , } ,}  root packet roots { } options {
-    calculatedFrom =false ;o
-= int64
-;
-    u =
-""a\\""zchar = // packet A { u8 x, }
-42 ;	}
+	int16	// `tick` ""quote"" 'q'
+  repeatCount 
+      // trailing space 
 
+  = int16 
+u8x 
+= 
+//	t
+  '\x00' ;
+    } options	{repeatCount
+
+    =0
+u128 
+        //
+      = false ; i64_ 
+	    // trailing space 
+    	// `tick` ""quote"" 'q'
+  ='0'
+;  //	t
+    }")).
+Eval vm_compute in ("<<<M873>>>" ++ check (runes_of_ascii "root packet BodyLength { uint16
+As `crlf
+line`
+//	t
+// " ++ [128512]%N ++ runes_of_ascii " emoji
+,}packet A {
+@calculatedFrom(""{,}""/// triple
+)
+    f32 trueish`// not a comment` , // `tick` ""quote"" 'q'
+}
+packet i8i8 {zchar[ 007 ]leftPad,@tag(
+    10
+)  tag  @lengthOf( o )
+, float64
+    T
+, @calculatedFrom( // " ++ [27880; 37322]%N ++ runes_of_ascii "
+""a\""b"" )
+string uint8x@calculatedFrom( ""abc"")`two words` ,
+}
 ")).
-Eval vm_compute in ("<<<M4312>>>" ++ check (runes_of_ascii "root packet MetaDataX {
+Eval vm_compute in ("<<<M1324>>>" ++ check (runes_of_ascii "
+root packet As {	u
+{ tag
+    a1
+, repeat charz `a\` , } ,match float
+    as
+u128 {""a\\"" : msg_type
+    ,""`tick`"": packetx, } , repeat
+char[
+    255 ] falsey `two words` ,
+f32
+    packetx  , zchar[0 //	t
+] options1 `{ , }`, repeat rootA
+    `
+` , }
+MetaData Header {
+u32 Header `` , }
+//x
+//x
+MetaData matchKey{ msg_type Z9_ ,
+}")).
+Eval vm_compute in ("<<<M1971>>>" ++ check (runes_of_ascii "MetaData
+    u { }  options {
+// c
+// @lengthOf(
+float = int8 ;rootA =false ; As =	int16 // `tick` ""quote"" 'q'
+repeatCount
+    // trailing space 
+    =
+    int16
+; u8x =
+    //	t
+    '\x00' '\x00' ; } options	{
+    repeatCount
+= 0
+u128
+    //
+    = false ; i64_
+// trailing space 
+// `tick` ""quote"" 'q'
+= '0' ; //	t
+}
+")).
+Eval vm_compute in ("<<<M1898>>>" ++ check (runes_of_ascii "MetaData
+    u { }  options {
+// c
+// @lengthOf(
+float = float32 ;rootA =false ; As =	int16 // `tick` ""quote"" 'q'
+repeatCount
+    // trailing space 
+    =
+    int16
+; u8x =
+    //	t
+    '\x00' ; } options	{
+    repeatCount
+= 0
+u128
+    //
+    = false ; i64_
+// trailing space 
+// `tick` ""quote"" 'q'
+= '0' ; //	t
+}
+")).
+Eval vm_compute in ("<<<M2051>>>" ++ check (runes_of_ascii "MetaData
+    u { }  options {
+// c
+// @lengthOf(
+float = int8 ;rootA =false ; As =	int16 // `tick` ""quote"" 'q'
+repeatCount
+    // trailing space 
+    =
+    int16
+; u8x =
+    //	t
+    '\x00' ; } options	{
+    repeatCount
+= 0
+u128
+    //
+    = false ; i64_
+// trailing space 
+// `tick` ""quote"" 'q'
+= '0' ; //	t
+} }
+")).
+Eval vm_compute in ("<<<M1882>>>" ++ check (runes_of_ascii "MetaData
+    u { }  options float
+// c
+// @lengthOf(
+{ = int8 ;rootA =false ; As =	int16 // `tick` ""quote"" 'q'
+repeatCount
+    // trailing space 
+    =
+    int16
+; u8x =
+    //	t
+    '\x00' ; } options	{
+    repeatCount
+= 0
+u128
+    //
+    = false ; i64_
+// trailing space 
+// `tick` ""quote"" 'q'
+= '0' ; //	t
+}
+")).
+Eval vm_compute in ("<<<M2032>>>" ++ check (runes_of_ascii "MetaData
+    u { }  options {
+// c
+// @lengthOf(
+float = int8 ;rootA =false ; As =	int16 // `tick` ""quote"" 'q'
+repeatCount
+    // trailing space 
+    =
+    int16
+; u8x =
+    //	t
+    '\x00' ; } options	{
+    repeatCount
+= 0
+u128
+    //
+    = false ; =
+// trailing space 
+// `tick` ""quote"" 'q'
+i64_ '0' ; //	t
+}
+")).
+Eval vm_compute in ("<<<M2045>>>" ++ check (runes_of_ascii "MetaData
+    u { }  options {
+// c
+// @lengthOf(
+float = int8 ;rootA =false ; As =	int16 // `tick` ""quote"" 'q'
+repeatCount
+    // trailing space 
+    =
+    int16
+; u8x =
+    //	t
+    '\x00' ; } options	{
+    repeatCount
+= 0
+u128
+    //
+    = false ; i64_
+// trailing space 
+// `tick` ""quote"" 'q'
+= '0'  //	t
+}
+")).
+Eval vm_compute in ("<<<M502>>>" ++ check (runes_of_ascii "
+root  packet BodyLength {
+    match
+matchKey as
+    As  { 255: Foo
+//
+//x
+,  10 :
+len , // packet A { u8 x, }
+""" ++ [233]%N ++ runes_of_ascii "t" ++ [233]%N ++ runes_of_ascii """
+    :tag , }
+    //	t
+    , packetx A , @calculatedFrom(
+""" ++ [233]%N ++ runes_of_ascii "t" ++ [233]%N ++ runes_of_ascii """) Logon `crlf
+line` // c
+, char[]
+charz
+    `a\` , zchar[
+    //x
+    42 ] chars , }
+    MetaData charz
+{ }
+packet zchar {}")).
+Eval vm_compute in ("<<<M2044>>>" ++ check (runes_of_ascii "MetaData
+    u { }  options {
+// c
+// @lengthOf(
+float = int8 ;rootA =false ; As =	int16 // `tick` ""quote"" 'q'
+repeatCount
+    // trailing space 
+    =
+    int16
+; u8x =
+    //	t
+    '\x00' ; } options	{
+    repeatCount
+= 0
+u128
+    //
+    = false ; i64_
+// trailing space 
+// `tick` ""quote"" 'q'
+=")).
+Eval vm_compute in ("<<<M4602>>>" ++ check (runes_of_ascii "options{
+
+    metadata
+=
+	char[
+    10 ]
+
+    tag=007
+    ;	stringy
+
+= 0
+
+;
+
+x_y_z
+    =
+
+    true	// a // b
+
+  ;
+}
+root
+    packet  o // " ++ [27880; 37322]%N ++ runes_of_ascii "
+    {
+@tag( // a // b
+3
+
+)	@leftPad (  '0'	)  @tag( 
+	// packet A { u8 x, }
+  // a // b
+00 )  i64_
+
+@lengthOf( 
+	    //
+	falsey
+)
+	,  }")).
+Eval vm_compute in ("<<<M916>>>" ++ check (runes_of_ascii "root packet lengthOf { int32 body@lengthOf( Z9_
+)
+    `// not a comment` ,}
+options { charz /// triple
+=
+    true }
+    packet
+asx { @tag(
+// `tick` ""quote"" 'q'
+// trailing space 
+255 ) msg_type
+// trailing space 
+// `tick` ""quote"" 'q'
+{ repeat
+crc	charz
+    //
+    ,} , }")).
+Eval vm_compute in ("<<<M4361>>>" ++ check (runes_of_ascii "  options 
+{
+
+calculatedFrom= false	;} packet	i64_
+	{
+body ,  
+      //	t
+  //x
+		} /// triple
+  	options  {float
+    =
+    true
+    ;// @lengthOf(
+    charz= 	 // a // b
+    	char[65535 ] ;  u
+=/// triple
+true
+;metadata	=
+
+    ""\" ++ [233]%N ++ runes_of_ascii """ matchKey
+= '\x00'
+
+}// " ++ [27880; 37322]%N)).
+Eval vm_compute in ("<<<M3760>>>" ++ check (runes_of_ascii "MetaData a1 {
+    //x
+    u8 u8x,
 }
 
 options {
-    int = false
+    float = '0';
+    // @lengthOf(
+    pack = string;
 }
 
-packet falsey {
-    string tag `say ""hi""`,
-    leftPad stringy,
-    @calculatedFrom(""a	b"")
-    As @calculatedFrom(""packet"") `line1
-    line2`,
-    A @lengthOf(body),
-    @calculatedFrom(""" ++ [28040; 24687]%N ++ runes_of_ascii """)
-    calculatedFrom,
-    calculatedFrom @lengthOf(calculatedFrom) `tab	here`,
+MetaData packetx {
+    tag Foo `
+    `,
+    uint8x asx,
+    uint16 body,
+    T x,// packet A { u8 x, }
+    float a1 `
+    `,
+    matchKey crc,
+}
+// a // b")).
+Eval vm_compute in ("<<<M1508>>>" ++ check (runes_of_ascii "packet
+//	t
+// trailing space 
+_x {
+// packet A { u8 x, }
+// c
+char[
+3 3
+    ] u8x @lengthOf(
+u8x ) , @calculatedFrom(""" ++ [128512]%N ++ runes_of_ascii """ // @lengthOf(
+)
+i16	Foo
+@lengthOf(	string_
+    )`doc`	, repeat	i64 metadata , @lengthOf( string_
+) i8 // c
+u  `line1
+line2`	,
+}
+")).
+Eval vm_compute in ("<<<M1665>>>" ++ check ([65279]%N ++ runes_of_ascii "packet
+//	t
+// trailing space 
+_x {
+// packet A { u8 x, }
+// c
+char[
+3
+    ] u8x @lengthOf(
+u8x ) , @calculatedFrom(""" ++ [128512]%N ++ runes_of_ascii """ // @lengthOf(
+)
+i16	Foo
+@lengthOf(	string_
+    )`doc`	, repeat	i64 metadata , @lengthOf( string_
+) i8 // c
+u  `line1
+line2`	,
+}
+")).
+Eval vm_compute in ("<<<M1594>>>" ++ check (runes_of_ascii "packet
+//	t
+// trailing space 
+_x {
+// packet A { u8 x, }
+// c
+char[
+3
+    ] u8x @lengthOf(
+u8x ) , @calculatedFrom(""" ++ [128512]%N ++ runes_of_ascii """ // @lengthOf(
+)
+i16	Foo
+@lengthOf(	string_
+    )`doc`	, i64	repeat metadata , @lengthOf( string_
+) i8 // c
+u  `line1
+line2`	,
+}
+")).
+Eval vm_compute in ("<<<M1647>>>" ++ check (runes_of_ascii "packet
+//	t
+// trailing space 
+_x {
+// packet A { u8 x, }
+// c
+char[
+3
+    ] u8x @lengthOf(
+u8x ) , @calculatedFrom(""" ++ [128512]%N ++ runes_of_ascii """ // @lengthOf(
+)
+i16	Foo
+@lengthOf(	string_
+    )`doc`	, repeat	i64 metadata , @lengthOf( string_
+) i8 // c
+u  `line1
+line2`	,
+
+")).
+Eval vm_compute in ("<<<M1570>>>" ++ check (runes_of_ascii "packet
+//	t
+// trailing space 
+_x {
+// packet A { u8 x, }
+// c
+char[
+3
+    ] u8x @lengthOf(
+u8x ) , @calculatedFrom(""" ++ [128512]%N ++ runes_of_ascii """ // @lengthOf(
+)
+i16	Foo
+i32	string_
+    )`doc`	, repeat	i64 metadata , @lengthOf( string_
+) i8 // c
+u  `line1
+line2`	,
+}
+")).
+Eval vm_compute in ("<<<M3744>>>" ++ check (runes_of_ascii "packet lengthOf {
+    @tag(65535)
+    match crc as i8i8 {
+        [
+            65535, 42, ""it's"", ""x y"", 7,
+            ""a	b""
+        ] : float,
+        00 : MetaDataX,
+        00 : options1,
+        1 : a1,
+        0 : packetx,
+    },
 }")).
-Eval vm_compute in ("<<<M4195>>>" ++ check (runes_of_ascii "  MetaData
-len //	t
-	{
-
-    f64  calculatedFrom
-,	x_y_z
-	x,}  packet
-    repeatCount {
-
-    @lengthOf(
-    pack
-) match x_y_z
-as  o	// " ++ [27880; 37322]%N ++ runes_of_ascii "
-  { 7 
-:Header 
-
-    // `tick` ""quote"" 'q'
-
-  // a // b
-    	}
-,
-}
-options  {
-
-lengthOf = 
-true;
-}
-packet
-
-    leftPad {
-MetaDataX@lengthOf(
-    T  )
-	`two words`
-
-,
-
-} ")).
-Eval vm_compute in ("<<<M1881>>>" ++ check (runes_of_ascii "MetaData
-    u { }  options { {
-// c
+Eval vm_compute in ("<<<M1171>>>" ++ check (runes_of_ascii "root  packet
+msg_type {
 // @lengthOf(
-float = int8 ;rootA =false ; As =	int16 // `tick` ""quote"" 'q'
-repeatCount
-    // trailing space 
-    =
-    int16
-; u8x =
-    //	t
-    '\x00' ; } options	{
-    repeatCount
-= 0
-u128
-    //
-    = false ; i64_
-// trailing space 
-// `tick` ""quote"" 'q'
-= '0' ; //	t
-}
-")).
-Eval vm_compute in ("<<<M1897>>>" ++ check (runes_of_ascii "MetaData
-    u { }  options {
-// c
-// @lengthOf(
-float = ; int8 rootA =false ; As =	int16 // `tick` ""quote"" 'q'
-repeatCount
-    // trailing space 
-    =
-    int16
-; u8x =
-    //	t
-    '\x00' ; } options	{
-    repeatCount
-= 0
-u128
-    //
-    = false ; i64_
-// trailing space 
-// `tick` ""quote"" 'q'
-= '0' ; //	t
-}
-")).
-Eval vm_compute in ("<<<M1947>>>" ++ check (runes_of_ascii "MetaData
-    u { }  options {
-// c
-// @lengthOf(
-float = int8 ;rootA =false ; As =	int16 // `tick` ""quote"" 'q'
-repeatCount
-    // trailing space 
-    int16
-    =
-; u8x =
-    //	t
-    '\x00' ; } options	{
-    repeatCount
-= 0
-u128
-    //
-    = false ; i64_
-// trailing space 
-// `tick` ""quote"" 'q'
-= '0' ; //	t
-}
-")).
-Eval vm_compute in ("<<<M1890>>>" ++ check (runes_of_ascii "MetaData
-    u { }  options {
-// c
-// @lengthOf(
-float  int8 ;rootA =false ; As =	int16 // `tick` ""quote"" 'q'
-repeatCount
-    // trailing space 
-    =
-    int16
-; u8x =
-    //	t
-    '\x00' ; } options	{
-    repeatCount
-= 0
-u128
-    //
-    = false ; i64_
-// trailing space 
-// `tick` ""quote"" 'q'
-= '0' ; //	t
-}
-")).
-Eval vm_compute in ("<<<M1938>>>" ++ check (runes_of_ascii "MetaData
-    u { }  options {
-// c
-// @lengthOf(
-float = int8 ;rootA =false ; As =	[ // `tick` ""quote"" 'q'
-repeatCount
-    // trailing space 
-    =
-    int16
-; u8x =
-    //	t
-    '\x00' ; } options	{
-    repeatCount
-= 0
-u128
-    //
-    = false ; i64_
-// trailing space 
-// `tick` ""quote"" 'q'
-= '0' ; //	t
-}
-")).
-Eval vm_compute in ("<<<M342>>>" ++ check (runes_of_ascii "root packet roots {  @tag(7 // `tick` ""quote"" 'q'
-) int64
-    A ,}
-//
-//
-packet u128
-    // a // b
-    { msg_type Pad
-`line1
-line2` , }options {crc = ""\" ++ [233]%N ++ runes_of_ascii """
-; }
-    root packet _x
-    {
-@lengthOf( pack// " ++ [27880; 37322]%N ++ runes_of_ascii "
-)
-    i16 MetaDataX	, calculatedFrom
-    { packetx@lengthOf(BodyLength )`{ , }` , } // a // b
-,}")).
-Eval vm_compute in ("<<<M3614>>>" ++ check (runes_of_ascii "options {
-    LittleEndian = true;
-    StringPrefixLenType = u8;
-    ArrayPrefixLenType = u8;
-}
-packet Ack {
-}
-root packet Quote {
-    Ack,
-    InSym94 {
-        repeat Ack,
-    },
-    u16 msgKind,
-    u16 OrderId @lengthOf(Body),
-    match msgKind as Body {
-        [110, 48] : Ack,
-    },
-}
-")).
-Eval vm_compute in ("<<<M3481>>>" ++ check (runes_of_ascii "// top
-packet
-    // c0
-chars
+//	t
+string repeatCount `crlf
+line` , i8	Foo @lengthOf( MetaDataX )
+    , @tag( 10 ) @calculatedFrom(
+    ""abc"" ) @lengthOf( falsey
+    ) repeat stringy pack `doc`,  } options { As =65535}")).
+Eval vm_compute in ("<<<M3531>>>" ++ check (runes_of_ascii "options {
     // c1
-{
-    // c2
-}
-    // c3
-packet
+LittleEndian // c2
+= true
     // c4
-MetaDataX
+;
     // c5
-{
-    // c6
-@tag(
-    // c7
-42
-    // c8
-)
-    // c9
-i16
-    // c10
-string_
-    // c11
-,
-    // c12
-repeat
-    // c13
-x
-    // c14
-`say ""hi""`
-    // c15
-,
-    // c16
-}
-    // c17
-")).
-Eval vm_compute in ("<<<M597>>>" ++ check (runes_of_ascii "
-root packet
-a1  {repeat
-    string x
-`// not a comment`	,
-//x
-// @lengthOf(
-}options
-//
-//	t
-{ stringy
-= true } packet msg_type { @rightPad ( '\x00'
-    // " ++ [27880; 37322]%N ++ runes_of_ascii "
-    ) match crc
-as packetx
-{ 65535 :body , 65535 :
-T,	}
-    , //x
-stringy
-    ,u32 roots, uint32 body , }")).
-Eval vm_compute in ("<<<M1603>>>" ++ check (runes_of_ascii "packet
-//	t
-// trailing space 
-_x {
-// packet A { u8 x, }
-// c
-char[
-3
-    ] u8x @lengthOf(
-u8x ) , @calculatedFrom(""" ++ [128512]%N ++ runes_of_ascii """ // @lengthOf(
-)
-i16	Foo
-@lengthOf(	string_
-    )`doc`	, repeat	i64 metadata metadata , @lengthOf( string_
-) i8 // c
-u  `line1
-line2`	,
-}
-")).
-Eval vm_compute in ("<<<M1580>>>" ++ check (runes_of_ascii "packet
-//	t
-// trailing space 
-_x {
-// packet A { u8 x, }
-// c
-char[
-3
-    ] u8x @lengthOf(
-u8x ) , @calculatedFrom(""" ++ [128512]%N ++ runes_of_ascii """ // @lengthOf(
-)
-i16	Foo
-@lengthOf(	string_
-    int32`doc`	, repeat	i64 metadata , @lengthOf( string_
-) i8 // c
-u  `line1
-line2`	,
-}
-")).
-Eval vm_compute in ("<<<M67>>>" ++ check (runes_of_ascii "packet lengthOf {// c
-} root packet
-asx { u32 Z9_
-`say ""hi""` ,
-@tag( 007
-    )match
-    u8x as Logon {
-    [ ""abc""	]: tag,0123456789 : tag,  """ ++ [233]%N ++ runes_of_ascii "t" ++ [233]%N ++ runes_of_ascii """ : int
-    ,
-""`tick`"" : options1 , } ,@leftPad
-( )  repeat
-string  tag
-    ,falsey `// not a comment` ,
-}
-")).
-Eval vm_compute in ("<<<M1544>>>" ++ check (runes_of_ascii "packet
-//	t
-// trailing space 
-_x {
-// packet A { u8 x, }
-// c
-char[
-3
-    ] u8x @lengthOf(
-u8x ) , """ ++ [128512]%N ++ runes_of_ascii """@calculatedFrom( // @lengthOf(
-)
-i16	Foo
-@lengthOf(	string_
-    )`doc`	, repeat	i64 metadata , @lengthOf( string_
-) i8 // c
-u  `line1
-line2`	,
-}
-")).
-Eval vm_compute in ("<<<M1532>>>" ++ check (runes_of_ascii "packet
-//	t
-// trailing space 
-_x {
-// packet A { u8 x, }
-// c
-char[
-3
-    ] u8x @lengthOf(
-u8x  , @calculatedFrom(""" ++ [128512]%N ++ runes_of_ascii """ // @lengthOf(
-)
-i16	Foo
-@lengthOf(	string_
-    )`doc`	, repeat	i64 metadata , @lengthOf( string_
-) i8 // c
-u  `line1
-line2`	,
-}
-")).
-Eval vm_compute in ("<<<M1502>>>" ++ check (runes_of_ascii "packet
-//	t
-// trailing space 
-_x {
-// packet A { u8 x, }
-// c
-
-3
-    ] u8x @lengthOf(
-u8x ) , @calculatedFrom(""" ++ [128512]%N ++ runes_of_ascii """ // @lengthOf(
-)
-i16	Foo
-@lengthOf(	string_
-    )`doc`	, repeat	i64 metadata , @lengthOf( string_
-) i8 // c
-u  `line1
-line2`	,
-}
-")).
-Eval vm_compute in ("<<<M3956>>>" ++ check (runes_of_ascii "
-
-  options 	 // c
-	{ x_y_z
-
-=
-f64 }  // " ++ [27880; 37322]%N ++ runes_of_ascii "
-		root packet
-    As
-	{  @tag(
-255 ) string
-	BodyLength
-	,
-	@leftPad
-
-    (
-) 
-match
-	Foo as
-
-body
-	{  007
-:
-
-i8i8 
-,42  :
-metadata
-
-,	// @lengthOf(
-	""""
-	:
-
-    body
-
-    , } 
-,
-
-    } ")).
-Eval vm_compute in ("<<<M361>>>" ++ check (runes_of_ascii "root
+} // c6
+root // c7a
+  // c7b
 packet
-f32a {
-trueish
-    falsey
-, tag , repeat
-    // trailing space 
-    Pad{ u32
-    i8i8 @calculatedFrom(""x y""
-    )
-, } ,@calculatedFrom( ""// no comment""  )@lengthOf( calculatedFrom
-    ) @tag(	65535)  string T,
-    }
-
+    // c8
+P { repeat // c11a
+  // c11b
+char
+    // c12
+cs
+    // c13
+, u8 x // c16
+,
+    // c17
+} // c18a
+  // c18b
 ")).
-Eval vm_compute in ("<<<M1747>>>" ++ check (runes_of_ascii "options { trueish = ""`tick`"" ; string_= """ ++ [233]%N ++ runes_of_ascii "t" ++ [233]%N ++ runes_of_ascii """
-    // c
-    } root
-    packet body { stringy @calculatedFrom( @calculatedFrom(
-""a	b"" ) `line1
-line2` , }
-packet Logon {
-    @leftPad(
-    ' ' ) //	t
-u16 string_ `u8 x,` ,
-}
-")).
-Eval vm_compute in ("<<<M4050>>>" ++ check (runes_of_ascii "packet len {
-    @calculatedFrom(""x y"")
-    @tag(3)
-    @tag(1)
+Eval vm_compute in ("<<<M764>>>" ++ check (runes_of_ascii "MetaData// packet A { u8 x, }
+matchKey { u64
+leftPad
+    //x
+    ,
+u32 T `it's` , uint8 x,
+    // packet A { u8 x, }
+    char[] f32a	`say ""hi""`
+, f64// trailing space 
+stringy ``	, lengthOf
+Packet  `say ""hi""`, }")).
+Eval vm_compute in ("<<<M1369>>>" ++ check (runes_of_ascii "
+packet len
+{ Logon ,@tag( 42 ) Logon { o @calculatedFrom( ""CRC32""
+)`crlf
+line` ,
+char[]
     /// triple
-    match o as Header {
-        007 : BodyLength,
-        ""x y"" : zchar,
-        [""abc""] : string_,
-    },// c
-    int32 leftPad,
-}// c")).
-Eval vm_compute in ("<<<M1699>>>" ++ check (runes_of_ascii "options { trueish = ""`tick`"" float32 string_= """ ++ [233]%N ++ runes_of_ascii "t" ++ [233]%N ++ runes_of_ascii """
-    // c
-    } root
-    packet body { stringy @calculatedFrom(
-""a	b"" ) `line1
-line2` , }
-packet Logon {
-    @leftPad(
-    ' ' ) //	t
-u16 string_ `u8 x,` ,
-}
-")).
+    Logon
+    @calculatedFrom(	""x y""	) ,}
+    ,
+    @leftPad ( '0' )body
+, }
+packet uint8x {} // a // b")).
 Eval vm_compute in ("<<<M1707>>>" ++ check (runes_of_ascii "options { trueish = ""`tick`"" ; string_= = """ ++ [233]%N ++ runes_of_ascii "t" ++ [233]%N ++ runes_of_ascii """
     // c
     } root
@@ -2189,54 +2255,67 @@ packet Logon {
 u16 @tag( `u8 x,` ,
 }
 ")).
-Eval vm_compute in ("<<<M471>>>" ++ check (runes_of_ascii "packet Header { int@lengthOf( lengthOf
-    ) , }
-    packet	Z9_ { @lengthOf( Z9_ ) repeat
-i8 lengthOf, } options {
-    rootA =  ' ' u8x= 65535 As = int8 matchKey = '\x00'
-; msg_type  =
-' ';
-    }")).
-Eval vm_compute in ("<<<M1363>>>" ++ check (runes_of_ascii "packet
-    metadata{ repeat BodyLength
-// packet A { u8 x, }
+Eval vm_compute in ("<<<M690>>>" ++ check (runes_of_ascii "packet // a // b
+rootA {Z9_ // c
+u `doc`, // packet A { u8 x, }
+i16 options1 `// not a comment` , @rightPad
+(
+' '
+    )	lengthOf
+{	zchar[// a // b
+3 // packet A { u8 x, }
+] body,
+    }
+    , } 	 ")).
+Eval vm_compute in ("<<<M1984>>>" ++ check (runes_of_ascii "MetaData
+    u { }  options {
 // c
-,
-    /// triple
-    int8
-chars , u128@calculatedFrom( ""a\""b""	) `tab	here` ,
-// packet A { u8 x, }
-//x
-}
-// packet A { u8 x, }
-")).
-Eval vm_compute in ("<<<M1169>>>" ++ check (runes_of_ascii "packet i64_ {match
-tag as x
-{ """ ++ [128512]%N ++ runes_of_ascii """ : string_ ,
-    ""a\\"" : rootA ,
-""abc""
-    :
-    pack , },
-@tag( 3 ) // @lengthOf(
-string metadata , string stringy
-`u8 x,`
 // @lengthOf(
-// a // b
-, }
+float = int8 ;rootA =false ; As =	int16 // `tick` ""quote"" 'q'
+repeatCount
+    // trailing space 
+    =
+    int16
+; u8x =
+    //	t
+    '\x00' ;")).
+Eval vm_compute in ("<<<M1128>>>" ++ check (runes_of_ascii "packet Foo { @tag( 0 ) @lengthOf(
+Packet
+// packet A { u8 x, }
+// packet A { u8 x, }
+) zchar[65535 ]  chars `it's` ,  float
+@lengthOf( repeatCount)
+    `line1
+line2` , }
+    options { }
 ")).
-Eval vm_compute in ("<<<M966>>>" ++ check (runes_of_ascii "packet metadata
-    {}
-    packet charz // `tick` ""quote"" 'q'
-{
-    repeat
-string len ,string_@lengthOf(
-x_y_z )
-`" ++ [233]%N ++ runes_of_ascii "`
-, repeat asx,
-    // @lengthOf(
-    } MetaData
-f32a
-    { }")).
+Eval vm_compute in ("<<<M3579>>>" ++ check (runes_of_ascii "
+packet A{	u8	a ,
+
+    }
+packet
+
+B  {u16	b,
+
+}root
+
+packet P{ u8	K1
+    ,u8 K2 
+, 
+match
+    K1 as M1  {
+    1
+    :	A
+,
+
+    }	, match
+
+    K2
+as
+	M2
+
+    {1: B,	} , 
+} ")).
 Eval vm_compute in ("<<<M1159>>>" ++ check (runes_of_ascii "root
 packet // " ++ [128512]%N ++ runes_of_ascii " emoji
 _x
@@ -2252,511 +2331,455 @@ f32
 line` ,repeat u8x , }
 
 ")).
-Eval vm_compute in ("<<<M1201>>>" ++ check (runes_of_ascii "packet
-falsey {lengthOf
-{ char[
-    // packet A { u8 x, }
-    65535 ] Header	@calculatedFrom(""a\\""
-)
-    /// triple
-    ,
-repeat x
-len,},
-    } MetaData
-x_y_z {	}
-")).
-Eval vm_compute in ("<<<M2383>>>" ++ check (runes_of_ascii "// c
-packet x { @lengthOf( metadata ) repeat repeat lengthOf
-,a1{
-trueish	,// c
-repeat//	t
-MetaDataX , } , zchar[
-    42	] rootA // `tick` ""quote"" 'q'
-,
-    }
-")).
-Eval vm_compute in ("<<<M4189>>>" ++ check (runes_of_ascii "MetaData Header {
-}
-
-MetaData Logon {
-    int32 falsey,
-    packetx _x,
-    char[] Logon `two words`,
-    matchKey packetx,
-    u32 u,
-    i64 float `it's`,
-}")).
-Eval vm_compute in ("<<<M2360>>>" ++ check (runes_of_ascii "// c
-packet x { @lengthOf( metadata ) repeat lengthOf
-,a1{
-trueish	,// c
-repeat//	t
-MetaDataX , } } , zchar[
-    42	] rootA // `tick` ""quote"" 'q'
-,
-    }
-")).
-Eval vm_compute in ("<<<M2120>>>" ++ check (runes_of_ascii "options{
-_x
-= true
-} options
-{ o	= = /// triple
-false
-    ; chars
-= ""\n"" } root packet	Pad
-/// triple
-// packet A { u8 x, }
-{	chars
-    // a // b
-    ,}")).
-Eval vm_compute in ("<<<M960>>>" ++ check (runes_of_ascii "// packet A { u8 x, }
-root  packet Logon/// triple
-{A`doc` , string len ,
-} MetaData len	{int64 i8i8`{ , }`, }
-packet // " ++ [27880; 37322]%N ++ runes_of_ascii "
-lengthOf {i64 Header
-,} //	t")).
-Eval vm_compute in ("<<<M2102>>>" ++ check (runes_of_ascii "options{
-_x
-= true
-{ options
-{ o	= /// triple
-false
-    ; chars
-= ""\n"" } root packet	Pad
-/// triple
-// packet A { u8 x, }
-{	chars
-    // a // b
-    ,}")).
-Eval vm_compute in ("<<<M2119>>>" ++ check (runes_of_ascii "options{
-_x
-= true
-} options
-{ o	 /// triple
-false
-    ; chars
-= ""\n"" } root packet	Pad
-/// triple
-// packet A { u8 x, }
-{	chars
-    // a // b
-    ,}")).
-Eval vm_compute in ("<<<M2401>>>" ++ check (runes_of_ascii "// c
-packet x { @lengthOf( metadata ) repeat lengthOf
-,a1{
-trueish	,// c
-repeat//	t
-MetaDataX , } , }
-    42	] rootA // `tick` ""quote"" 'q'
-,
-    }
-")).
-Eval vm_compute in ("<<<M2159>>>" ++ check (runes_of_ascii "options{
-_x
-= true
-} options
-{ o	= /// triple
-false
-    ; chars
-= ""\n"" } root 	Pad
-/// triple
-// packet A { u8 x, }
-{	chars
-    // a // b
-    ,}")).
-Eval vm_compute in ("<<<M4314>>>" ++ check (runes_of_ascii "
-MetaData
-T { 
-i64
-body
-
-    `
-` 	 // c
-  ,string
-
-packetx ,  int Pad
-    ,	// @lengthOf(
-  char[]  A 
-`" ++ [233]%N ++ runes_of_ascii "`,	i8i8
-float,
-	repeatCount o, }
-
-")).
-Eval vm_compute in ("<<<M611>>>" ++ check (runes_of_ascii "root packet // " ++ [27880; 37322]%N ++ runes_of_ascii "
-_x	{repeat int64 trueish//x
-, string calculatedFrom , Z9_ As
-    , match tag
-as trueish { 65535:  repeatCount
-, }//
-, }
-")).
-Eval vm_compute in ("<<<M4154>>>" ++ check (runes_of_ascii "packet Foo {
-}
-
-packet MetaDataX {
-    char[] Logon,
-}
-
-root packet MetaDataX {
-    match Z9_ as zchar {
-        7 : zchar,
-    },
-}")).
-Eval vm_compute in ("<<<M3775>>>" ++ check (runes_of_ascii "
-MetaData
-float{float64
-
-    charz  `
-`
-
-    ,
-    } root
-packet  chars 
-      // c
-
-  { @rightPad
-
-(	'0') Foo
-	,
-    }
-
-")).
-Eval vm_compute in ("<<<M541>>>" ++ check (runes_of_ascii "// @lengthOf(
-options {
-u128
-    =  ' '  chars
+Eval vm_compute in ("<<<M69>>>" ++ check (runes_of_ascii "options { o =""x y""
+//x
+// trailing space 
+; float
+    = ""\n"" metadata
+// " ++ [128512]%N ++ runes_of_ascii " emoji
+// `tick` ""quote"" 'q'
 =
-    char ; float=""// no comment"" repeatCount
-    //x
-    =
-    false;
-}
-")).
-Eval vm_compute in ("<<<M2337>>>" ++ check (runes_of_ascii "// c
+    """ ++ [128512]%N ++ runes_of_ascii """;Logon
+//
+//	t
+=
+true
+; i8i8  = string// @lengthOf(
+}")).
+Eval vm_compute in ("<<<M4134>>>" ++ check (runes_of_ascii "//	t
+MetaData chars {
+    falsey pack,
+    packetx zchar `
+        `,
+}// " ++ [128512]%N ++ runes_of_ascii " emoji
+
+packet u128 {
+    @lengthOf(tag)
+    @tag(1)
+    @rightPad('\x00')
+    i64 T,
+}")).
+Eval vm_compute in ("<<<M2135>>>" ++ check (runes_of_ascii "options{
+_x
+= true
+} options
+{ o	= /// triple
+false
+    ; chars chars
+= ""\n"" } root packet	Pad
+/// triple
+// packet A { u8 x, }
+{	chars
+    // a // b
+    ,}")).
+Eval vm_compute in ("<<<M2323>>>" ++ check (runes_of_ascii "// c
 packet x { @lengthOf( metadata ) repeat lengthOf
 ,a1{
 trueish	,// c
 repeat//	t
 MetaDataX , } , zchar[
-    42	] root")).
-Eval vm_compute in ("<<<M3342>>>" ++ check (runes_of_ascii "root packet matchKey { zchar[ 3 ] pack @calculatedFrom( ""a	b"" ) `doc` , } options { // c
-} MetaData A { int8 msg_type , }")).
-Eval vm_compute in ("<<<M1475>>>" ++ check (runes_of_ascii "
-packet
-    falsey { Header@calculatedFrom(""packet""  ) , < char[
-    0123456789 ] packetx
-    , } // `tick` ""quote"" 'q'")).
-Eval vm_compute in ("<<<M1424>>>" ++ check (runes_of_ascii "
-packet
-    falsey { Header@calculatedFrom()  ""packet"" , char[
-    0123456789 ] packetx
-    , } // `tick` ""quote"" 'q'")).
-Eval vm_compute in ("<<<M3662>>>" ++ check (runes_of_ascii "packet  rootA { }options
-
-{uint8x
-	= 	 //	t
-  u32
-
-    ;
-i64_  =	255 
-;len
-
-    =
-    ' '
-;
-} // @lengthOf(
+    42	] rootA // `tick` ""quote"" 'q'
+""1""
+    }
 ")).
-Eval vm_compute in ("<<<M4070>>>" ++ check (runes_of_ascii "packet
-    metadata
-    // c
-    {  Logon
-
-{ A`" ++ [28040; 24687; 31867; 22411]%N ++ runes_of_ascii "`,
-
-tag
-	o
-,	} ,
-    zchar  len `// not a comment`
+Eval vm_compute in ("<<<M403>>>" ++ check (runes_of_ascii "packet body {  @leftPad (
+    ) zchar[
+0 ] metadata , chars {
+repeat
+    // " ++ [128512]%N ++ runes_of_ascii " emoji
+    u8 string_,
+string options1
+    @calculatedFrom( """ ++ [28040; 24687]%N ++ runes_of_ascii """
+    ) , },}")).
+Eval vm_compute in ("<<<M2406>>>" ++ check (runes_of_ascii "// c
+packet x { @lengthOf( metadata ) repeat lengthOf
+,a1{
+trueish	,// c
+repeat//	t
+MetaDataX , } , zchar[
+    42	rootA ] // `tick` ""quote"" 'q'
+,
+    }
+")).
+Eval vm_compute in ("<<<M2078>>>" ++ check (runes_of_ascii "{options
+_x
+= true
+} options
+{ o	= /// triple
+false
+    ; chars
+= ""\n"" } root packet	Pad
+/// triple
+// packet A { u8 x, }
+{	chars
+    // a // b
+    ,}")).
+Eval vm_compute in ("<<<M0>>>" ++ check (runes_of_ascii "
+packet /// triple
+uint8x	{@calculatedFrom(
+""a	b"" )
+//
+// " ++ [128512]%N ++ runes_of_ascii " emoji
+i32 charz
     ,
-
-}
-")).
-Eval vm_compute in ("<<<M1241>>>" ++ check (runes_of_ascii "packet T {@rightPad
-() @tag(00
-    ) char[]
-a1
-    @calculatedFrom(
-    ""a\""b""
-    )
-    `two words`
-    , }
-")).
-Eval vm_compute in ("<<<M845>>>" ++ check (runes_of_ascii "packet zchar { @lengthOf( i8i8 ) int16
-msg_type @lengthOf(
+match //x
+x	as
+x {""a	b""  :
+lengthOf,} , leftPad
+    `{ , }` , } //x")).
+Eval vm_compute in ("<<<M2162>>>" ++ check (runes_of_ascii "options{
+_x
+= true
+} options
+{ o	= /// triple
+false
+    ; chars
+= ""\n"" } root i16	Pad
+/// triple
+// packet A { u8 x, }
+{	chars
+    // a // b
+    ,}")).
+Eval vm_compute in ("<<<M1790>>>" ++ check (runes_of_ascii "options { trueish = ""`tick`"" ; string_= """ ++ [233]%N ++ runes_of_ascii "t" ++ [233]%N ++ runes_of_ascii """
     // c
-    As // `tick` ""quote"" 'q'
-) `
-`
-,}
+    } root
+    packet body { stringy @calculatedFrom(
+""a	b"" ) `line1
+line2` , }
+packet Logon")).
+Eval vm_compute in ("<<<M2316>>>" ++ check (runes_of_ascii "// c
+packet x {  metadata ) repeat lengthOf
+,a1{
+trueish	,// c
+repeat//	t
+MetaDataX , } , zchar[
+    42	] rootA // `tick` ""quote"" 'q'
+,
+    }
 ")).
-Eval vm_compute in ("<<<M4543>>>" ++ check (runes_of_ascii "MetaData float {
-    float64 charz `
-        `,
-}
+Eval vm_compute in ("<<<M176>>>" ++ check (runes_of_ascii "
+packet Foo {	} packet MetaDataX
+    {char[]	Logon
+// trailing space 
+//
+,  }root packet MetaDataX { match Z9_ as zchar{
+7 : zchar , } , }")).
+Eval vm_compute in ("<<<M4312>>>" ++ check (runes_of_ascii "packet A {
+    B b `a
+            b
+          c`,
+    B `a
+            b
+          c`,
+    repeat B bs `a
+            b
+          c`,
+}")).
+Eval vm_compute in ("<<<M3967>>>" ++ check (runes_of_ascii "
+// c
+  MetaData
+float {  float64 charz `
+`  ,
+	}	root
+packet
 
-root packet chars {
-    @rightPad('0')
-    Foo,
-}// c")).
-Eval vm_compute in ("<<<M1467>>>" ++ check (runes_of_ascii "
+    chars
+    { @rightPad
+	( 
+'0'
+
+    )
+    Foo 
+,
+    } ")).
+Eval vm_compute in ("<<<M935>>>" ++ check (runes_of_ascii "options	{ // " ++ [27880; 37322]%N ++ runes_of_ascii "
+zchar=	zchar[ 7
+]	;
+    asx = 10 ;
+zchar
+    = ""a\\"" ; float = 10
+Logon
+= '0';
+    }MetaData	crc {
+    }
+")).
+Eval vm_compute in ("<<<M4393>>>" ++ check (runes_of_ascii "packet A {
+    u16 len @lengthOf(body) `x
+        `,
+    u32 crc @calculatedFrom(""CRC32"") `x
+        `,
+    string body,
+}")).
+Eval vm_compute in ("<<<M3336>>>" ++ check (runes_of_ascii "root packet matchKey { zchar[ 3 ] pack @calculatedFrom( ""a	b"" ) `doc` , // c
+} options { } MetaData A { int8 msg_type , }")).
+Eval vm_compute in ("<<<M1428>>>" ++ check (runes_of_ascii "
+packet
+    falsey { Header@calculatedFrom(""packet""  ) ) , char[
+    0123456789 ] packetx
+    , } // `tick` ""quote"" 'q'")).
+Eval vm_compute in ("<<<M4468>>>" ++ check (runes_of_ascii "packet A {
+    u16 len @lengthOf(body) `a
+    b`,
+    u32 crc @calculatedFrom(""CRC32"") `a
+    b`,
+    string body,
+}")).
+Eval vm_compute in ("<<<M1447>>>" ++ check (runes_of_ascii "
 packet
     falsey { Header@calculatedFrom(""packet""  ) , char[
-    0123456789 ] packetx
-    , } // `")).
-Eval vm_compute in ("<<<M2938>>>" ++ check (runes_of_ascii "packet A {
+    0123456789  packetx
+    , } // `tick` ""quote"" 'q'")).
+Eval vm_compute in ("<<<M4354>>>" ++ check (runes_of_ascii "packet MetaDataX {
+    i8i8 @calculatedFrom(""a\""b"") `
+    `,
+    @calculatedFrom(""a\\"")
+    leftPad,
+}
+// " ++ [128512]%N ++ runes_of_ascii " emoji")).
+Eval vm_compute in ("<<<M2999>>>" ++ check (runes_of_ascii "packet A {
   match k as n {
-    [""a"", ""bb"", ""c c"", ""d"", ""e"", ""f"", ""g"", ""h""] : B,
+    [""a"", ""bb"", 007, ""d"", ""e"", 66, ""g"", ""h"", 9, ""j"", ""k"", 12] : B
     2 : C
   },
 }")).
-Eval vm_compute in ("<<<M4259>>>" ++ check (runes_of_ascii "packet
+Eval vm_compute in ("<<<M4446>>>" ++ check (runes_of_ascii "packet 
+stringy  { 
+@lengthOf(
 
-    chars 
-    //
-	{ i8
-	body @lengthOf( crc), 
-repeat	char[]
-zchar 
-,body
-`
-`
-,}
+    crc
+)
+string repeatCount
+@calculatedFrom(
+    ""{,}"" 
+)
 
-")).
-Eval vm_compute in ("<<<M378>>>" ++ check (runes_of_ascii "packet
-len
-    /// triple
-    { @tag(1
-) zchar[1 ] Foo
-@lengthOf( Foo )
-,T zchar
-``
-, }
+    ,	}
 
 ")).
-Eval vm_compute in ("<<<M2299>>>" ++ check (runes_of_ascii "options
-{ } options { BodyLength= u1@tag6 Header= f64 ; u128 =
-    true
-    ; } // a // b")).
-Eval vm_compute in ("<<<M3278>>>" ++ check (runes_of_ascii "MetaData float { float64 charz
-// c
-`
-` , } root packet chars { @rightPad ( '0' ) Foo , }")).
-Eval vm_compute in ("<<<M3489>>>" ++ check (runes_of_ascii "packet chars { // c
-} packet MetaDataX { @tag( 42 ) i16 string_ , repeat x `say ""hi""` , }")).
-Eval vm_compute in ("<<<M4413>>>" ++ check (runes_of_ascii "MetaData body {
-    i64 pack `it's`,
-}
-
-// c
-packet stringy {
-    int16 calculatedFrom,
+Eval vm_compute in ("<<<M2981>>>" ++ check (runes_of_ascii "packet A {
+  match k as n {
+    [""a"", 22, ""c c"", 4, ""e"", 66, ""g"", 8, ""i"", 10, ""k""] : B,
+    2 : C
+  },
 }")).
-Eval vm_compute in ("<<<M2295>>>" ++ check (runes_of_ascii "options
-{ } options { BodyLength= u16 Header= f64 ; u128 =
-    true
-    ; } //' a // b")).
-Eval vm_compute in ("<<<M2214>>>" ++ check (runes_of_ascii "options
-} { options { BodyLength= u16 Header= f64 ; u128 =
-    true
-    ; } // a // b")).
-Eval vm_compute in ("<<<M3228>>>" ++ check (runes_of_ascii "packet metadata { Logon { A `" ++ [28040; 24687; 31867; 22411]%N ++ runes_of_ascii "` ,
-// c
-tag o , } , zchar len `// not a comment` , }")).
-Eval vm_compute in ("<<<M2226>>>" ++ check (runes_of_ascii "options
-{ } options  BodyLength= u16 Header= f64 ; u128 =
-    true
-    ; } // a // b")).
-Eval vm_compute in ("<<<M3448>>>" ++ check (runes_of_ascii "packet o { repeat Logon uint8x , } options {
-// c
-asx = zchar[ 3 ] stringy = '\x00' }")).
-Eval vm_compute in ("<<<M4079>>>" ++ check (runes_of_ascii "packet order_item {
-    u8 a,
-}
-
-root packet new_order {
-    order_item,
-    u8 x,
-}")).
-Eval vm_compute in ("<<<M3392>>>" ++ check (runes_of_ascii "// c
-MetaData body { i64 pack `it's` , } packet stringy { int16 calculatedFrom , }")).
-Eval vm_compute in ("<<<M1051>>>" ++ check (runes_of_ascii "options {
+Eval vm_compute in ("<<<M1417>>>" ++ check (runes_of_ascii "
+packet
+    falsey { Header""packet""  ) , char[
+    0123456789 ] packetx
+    , } // `tick` ""quote"" 'q'")).
+Eval vm_compute in ("<<<M1546>>>" ++ check (runes_of_ascii "packet
 //	t
+// trailing space 
+_x {
 // packet A { u8 x, }
-roots // packet A { u8 x, }
-= char[42 ]
-; }")).
-Eval vm_compute in ("<<<M2832>>>" ++ check (runes_of_ascii ") char[] u64 , int16 float32 = } match @lengthOf( match @lengthOf( MetaData i32")).
+// c
+char[
+3
+    ] u8x @lengthOf(
+u8x ) ,")).
+Eval vm_compute in ("<<<M91>>>" ++ check (runes_of_ascii "// trailing space 
+MetaData u8x
+{
+i64_
+    i64_ `doc`,i16 Z9_ `say ""hi""` , BodyLength
+roots ,
+}")).
+Eval vm_compute in ("<<<M3834>>>" ++ check (runes_of_ascii "
+MetaData body
+// c
+    {i64
+    pack `it's`,
+} 
+packet	stringy
+{ int16
+
+calculatedFrom, } ")).
+Eval vm_compute in ("<<<M881>>>" ++ check (runes_of_ascii "MetaData chars
+    {
+pack
+// " ++ [27880; 37322]%N ++ runes_of_ascii "
+/// triple
+calculatedFrom , }options { } // trailing space ")).
+Eval vm_compute in ("<<<M3519>>>" ++ check (runes_of_ascii "packet chars { } packet MetaDataX { @tag( 42 ) i16 string_ , repeat x `say ""hi""` , } // c
+")).
+Eval vm_compute in ("<<<M3284>>>" ++ check (runes_of_ascii "MetaData float { float64 charz `
+` , }
+// c
+root packet chars { @rightPad ( '0' ) Foo , }")).
+Eval vm_compute in ("<<<M3495>>>" ++ check (runes_of_ascii "packet chars { } packet MetaDataX // c
+{ @tag( 42 ) i16 string_ , repeat x `say ""hi""` , }")).
+Eval vm_compute in ("<<<M2217>>>" ++ check (runes_of_ascii "options
+{ } } options { BodyLength= u16 Header= f64 ; u128 =
+    true
+    ; } // a // b")).
+Eval vm_compute in ("<<<M2303>>>" ++ check (runes_of_ascii "options
+{ } options { BodyLength= u16% Header= f64 ; u128 =
+    true
+    ; } // a // b")).
+Eval vm_compute in ("<<<M2248>>>" ++ check (runes_of_ascii "options
+{ } options { BodyLength= u16 =Header f64 ; u128 =
+    true
+    ; } // a // b")).
+Eval vm_compute in ("<<<M3235>>>" ++ check (runes_of_ascii "packet metadata { Logon { A `" ++ [28040; 24687; 31867; 22411]%N ++ runes_of_ascii "` , tag o , } // c
+, zchar len `// not a comment` , }")).
+Eval vm_compute in ("<<<M2949>>>" ++ check (runes_of_ascii "packet A {
+  match k as n {
+    [1, 22, 007, 4, 5, 66, 7, 8, 9] : B,
+    2 : C
+  },
+}")).
+Eval vm_compute in ("<<<M3458>>>" ++ check (runes_of_ascii "packet o { repeat Logon uint8x , } options { asx = zchar[ 3 ]
+// c
+stringy = '\x00' }")).
+Eval vm_compute in ("<<<M1745>>>" ++ check (runes_of_ascii "options { trueish = ""`tick`"" ; string_= """ ++ [233]%N ++ runes_of_ascii "t" ++ [233]%N ++ runes_of_ascii """
+    // c
+    } root
+    packet body {")).
+Eval vm_compute in ("<<<M3401>>>" ++ check (runes_of_ascii "MetaData body { i64
+// c
+pack `it's` , } packet stringy { int16 calculatedFrom , }")).
+Eval vm_compute in ("<<<M2900>>>" ++ check (runes_of_ascii "packet A {
+  match k as n {
+    [""a"", ""bb"", ""c c"", ""d"", ""e""] : B
+    2 : C
+  },
+}")).
+Eval vm_compute in ("<<<M2918>>>" ++ check (runes_of_ascii "packet A {
+  match k as n {
+    [1, 22, ""c c"", 4, 5, ""f""] : B,
+    2 : C
+  },
+}")).
 Eval vm_compute in ("<<<M2910>>>" ++ check (runes_of_ascii "packet A {
   match k as n {
     [1, 22, 007, 4, 5, 66] : B,
     2 : C
   },
 }")).
-Eval vm_compute in ("<<<M4469>>>" ++ check (runes_of_ascii "
+Eval vm_compute in ("<<<M3853>>>" ++ check (runes_of_ascii "packet 
+A
+{
 
-  MetaData
+Inner
+    {  u8
+	x `x
+`, Deep
 
-    M
-    { u8
-
-x 
-`tab
-	x`	,	T 
-t
-`tab
-	x`
-
-    , }
-")).
-Eval vm_compute in ("<<<M3974>>>" ++ check (runes_of_ascii "options	{
-	_x=  0;
-
-    As =  zchar[
-
-    4294967296
-] ; } //x
- 
-")).
-Eval vm_compute in ("<<<M552>>>" ++ check (runes_of_ascii "  options{ i8i8 = true// " ++ [128512]%N ++ runes_of_ascii " emoji
-chars = 42
-    /// triple
-    ; }
-")).
-Eval vm_compute in ("<<<M3576>>>" ++ check (runes_of_ascii "  root
-packet
-
-P {u8
-s_u8
-    ,repeat u8 r_u8 ,u16
-b_len
-,  }
-")).
-Eval vm_compute in ("<<<M4104>>>" ++ check (runes_of_ascii "root
-    packet P
-	{ repeat 
-char cs
-,u8 
-x
-
-    ,
-
-    }
-
-")).
-Eval vm_compute in ("<<<M4152>>>" ++ check (runes_of_ascii "
-packet  A {  B
-
-b`
-` , 
-B`
-`,
-
-    repeat B
-bs `
+{ u8 
+y `x
 ` 
-,
-
-}")).
-Eval vm_compute in ("<<<M3368>>>" ++ check (runes_of_ascii "packet x
-// c
-{ @rightPad ( ) repeat roots Logon `doc` , }")).
-Eval vm_compute in ("<<<M3014>>>" ++ check (runes_of_ascii "packet A {
-    B b `
-`,
-    B `
-`,
-    repeat B bs `
-`,
-}")).
-Eval vm_compute in ("<<<M165>>>" ++ check (runes_of_ascii "packet x
-{ @lengthOf( x_y_z )
-BodyLength tag // c
-,}
+, }	, 
+} , }
 ")).
-Eval vm_compute in ("<<<M2265>>>" ++ check (runes_of_ascii "options
-{ } options { BodyLength= u16 Header= f64")).
-Eval vm_compute in ("<<<M2754>>>" ++ check (runes_of_ascii "f64 false float32 match int16 int16 '\x00' char")).
-Eval vm_compute in ("<<<M2188>>>" ++ check (runes_of_ascii "options{
+Eval vm_compute in ("<<<M3944>>>" ++ check (runes_of_ascii "root packet roots {
+    // " ++ [128512]%N ++ runes_of_ascii " emoji
+    calculatedFrom x_y_z,
+}// a // b")).
+Eval vm_compute in ("<<<M2885>>>" ++ check (runes_of_ascii "packet A {
+  match k as n {
+    [1, 22, 007, 4] : B
+    2 : C
+  },
+}")).
+Eval vm_compute in ("<<<M1730>>>" ++ check (runes_of_ascii "options { trueish = ""`tick`"" ; string_= """ ++ [233]%N ++ runes_of_ascii "t" ++ [233]%N ++ runes_of_ascii """
+    // c
+    } root")).
+Eval vm_compute in ("<<<M3541>>>" ++ check (runes_of_ascii "
+
+  root
+    packet P  { hdr
+
+    {
+u8
+
+a
+	,
+}  ,  u8	x, 
+}")).
+Eval vm_compute in ("<<<M2717>>>" ++ check (runes_of_ascii "'0' `doc` char[ ) string @leftPad , char[] string root @tag(")).
+Eval vm_compute in ("<<<M2816>>>" ++ check (runes_of_ascii "zchar[ f64 char string int32 as false char[ char @rightPad")).
+Eval vm_compute in ("<<<M2709>>>" ++ check (runes_of_ascii "'0' @tag( i64 i32 u8 0 } uint64 char u8 @lengthOf( = char")).
+Eval vm_compute in ("<<<M2793>>>" ++ check (runes_of_ascii "zchar[ 0123456789 = string uint32 @lengthOf( options ;")).
+Eval vm_compute in ("<<<M819>>>" ++ check (runes_of_ascii "MetaData
+    // c
+    Foo{ char[
+00
+    ] Pad ,
+}
+")).
+Eval vm_compute in ("<<<M2584>>>" ++ check (runes_of_ascii "packet A { char[] x @calculatedFrom(""c"") `d`, }")).
+Eval vm_compute in ("<<<M1720>>>" ++ check (runes_of_ascii "options { trueish = ""`tick`"" ; string_= """ ++ [233]%N ++ runes_of_ascii "t" ++ [233]%N ++ runes_of_ascii """")).
+Eval vm_compute in ("<<<M3035>>>" ++ check (runes_of_ascii "MetaData M {
+    u8 x `x
+`,
+    T t `x
+`,
+}")).
+Eval vm_compute in ("<<<M945>>>" ++ check (runes_of_ascii "options {  Packet
+=	0 trueish =
+i8
+;	}
+")).
+Eval vm_compute in ("<<<M1357>>>" ++ check (runes_of_ascii "
+packet /// triple
+BodyLength
+{
+    }
+")).
+Eval vm_compute in ("<<<M3159>>>" ++ check (runes_of_ascii "MetaData M {
+}// c
+MetaData N {
+}// d")).
+Eval vm_compute in ("<<<M1506>>>" ++ check (runes_of_ascii "packet
+//	t
+// trailing space 
+_x {")).
+Eval vm_compute in ("<<<M3754>>>" ++ check (runes_of_ascii "// " ++ [27880; 37322]%N ++ runes_of_ascii "
+packet Header {
+}
+// " ++ [128512]%N ++ runes_of_ascii " emoji")).
+Eval vm_compute in ("<<<M2811>>>" ++ check (runes_of_ascii "@lengthOf( @tag( ( `a\` i16 ( as")).
+Eval vm_compute in ("<<<M2118>>>" ++ check (runes_of_ascii "options{
 _x
 = true
 } options
-{ o	= /// triple")).
-Eval vm_compute in ("<<<M2762>>>" ++ check (runes_of_ascii "zchar[ @leftPad root repeat ) char [ [ char")).
-Eval vm_compute in ("<<<M3909>>>" ++ check (runes_of_ascii "packet len {
-    int16 trueish `
-    `,
+{")).
+Eval vm_compute in ("<<<M1247>>>" ++ check (runes_of_ascii "options { lengthOf	=7;
+    }
+")).
+Eval vm_compute in ("<<<M2591>>>" ++ check (runes_of_ascii "packet A { x @lengthOf(), }")).
+Eval vm_compute in ("<<<M2818>>>" ++ check (runes_of_ascii "ykT4r3#5kWpIpr8~:{UG:h?pLl")).
+Eval vm_compute in ("<<<M4445>>>" ++ check (runes_of_ascii "// c 
+	packet
+	A
+    {}
+")).
+Eval vm_compute in ("<<<M4332>>>" ++ check (runes_of_ascii "
+packet
+	A {
+	}	// c 
+")).
+Eval vm_compute in ("<<<M4002>>>" ++ check (runes_of_ascii "packet BodyLength {
 }")).
-Eval vm_compute in ("<<<M240>>>" ++ check (runes_of_ascii "
-packet Header{ char[] body
-//x
-//
-, }
+Eval vm_compute in ("<<<M1073>>>" ++ check (runes_of_ascii "packet msg_type {}
 ")).
-Eval vm_compute in ("<<<M2736>>>" ++ check ([65533; 65533]%N ++ runes_of_ascii "l," ++ [65533]%N ++ runes_of_ascii "," ++ [65533]%N ++ runes_of_ascii ":2fu" ++ [65533; 24; 65533; 65533; 65533]%N ++ runes_of_ascii "AF" ++ [65533; 4; 65533; 65533]%N ++ runes_of_ascii "G" ++ [65533; 65533; 65533]%N ++ runes_of_ascii "_e" ++ [65533; 65533; 65533; 65533; 65533]%N ++ runes_of_ascii "PM" ++ [65533; 65533]%N)).
-Eval vm_compute in ("<<<M1033>>>" ++ check (runes_of_ascii "options {
-_x = 65535// " ++ [128512]%N ++ runes_of_ascii " emoji
-; }
-")).
-Eval vm_compute in ("<<<M2768>>>" ++ check (runes_of_ascii "cbXYPX~e2)CI,UYRj(FHGR'\b#6AQ*Q<F\")).
-Eval vm_compute in ("<<<M1143>>>" ++ check (runes_of_ascii "
-options { options1= false
-    }")).
-Eval vm_compute in ("<<<M4484>>>" ++ check (runes_of_ascii "
-MetaData
-
-    As
-    {
-
+Eval vm_compute in ("<<<M1267>>>" ++ check (runes_of_ascii "root packet a1 { }")).
+Eval vm_compute in ("<<<M3120>>>" ++ check (runes_of_ascii "packet A {
 }
+// c" ++ [12]%N)).
+Eval vm_compute in ("<<<M3073>>>" ++ check (runes_of_ascii "packet A {
+}// c" ++ [133]%N)).
+Eval vm_compute in ("<<<M4048>>>" ++ check (runes_of_ascii "  options {  }
 
 ")).
-Eval vm_compute in ("<<<M80>>>" ++ check (runes_of_ascii "packet u8x {
-    //	t
-    }
-
-")).
-Eval vm_compute in ("<<<M1421>>>" ++ check (runes_of_ascii "
-packet
-    falsey { Header")).
-Eval vm_compute in ("<<<M2798>>>" ++ check (runes_of_ascii "3" ++ [65533]%N ++ runes_of_ascii "XL" ++ [65533; 65533]%N ++ runes_of_ascii "~gO+" ++ [65533]%N ++ runes_of_ascii "x\" ++ [127; 65533; 4]%N ++ runes_of_ascii "`" ++ [24]%N ++ runes_of_ascii "i" ++ [31; 65533; 65533; 65533]%N ++ runes_of_ascii "R" ++ [65533; 65533]%N)).
-Eval vm_compute in ("<<<M899>>>" ++ check (runes_of_ascii "
-MetaData Pad
-    {  }
-")).
-Eval vm_compute in ("<<<M141>>>" ++ check (runes_of_ascii "packet Header {
-    }
-")).
-Eval vm_compute in ("<<<M1416>>>" ++ check (runes_of_ascii "
-packet
-    falsey {")).
-Eval vm_compute in ("<<<M2632>>>" ++ check (runes_of_ascii "packet A { } packet")).
-Eval vm_compute in ("<<<M1879>>>" ++ check (runes_of_ascii "MetaData
-    u { }")).
-Eval vm_compute in ("<<<M3123>>>" ++ check (runes_of_ascii "packet A {
-}// c 	")).
-Eval vm_compute in ("<<<M3078>>>" ++ check (runes_of_ascii "packet A {
-}// c" ++ [5760]%N)).
-Eval vm_compute in ("<<<M915>>>" ++ check (runes_of_ascii "packet body { }")).
-Eval vm_compute in ("<<<M2840>>>" ++ check (runes_of_ascii "x" ++ [65533]%N ++ runes_of_ascii "V" ++ [65533; 65533; 65533]%N ++ runes_of_ascii "yj" ++ [65533; 65533; 65533]%N ++ runes_of_ascii "w" ++ [65533]%N)).
-Eval vm_compute in ("<<<M4272>>>" ++ check (runes_of_ascii "/// triple
-")).
-Eval vm_compute in ("<<<M2638>>>" ++ check (runes_of_ascii "packet A")).
-Eval vm_compute in ("<<<M2425>>>" ++ check (runes_of_ascii "char[]")).
-Eval vm_compute in ("<<<M2461>>>" ++ check (runes_of_ascii "roots")).
-Eval vm_compute in ("<<<M908>>>" ++ check (runes_of_ascii "//x
-")).
-Eval vm_compute in ("<<<M2438>>>" ++ check (runes_of_ascii "u8x")).
-Eval vm_compute in ("<<<M2846>>>" ++ check (runes_of_ascii "[ ;")).
-Eval vm_compute in ("<<<M2535>>>" ++ check (runes_of_ascii "_")).
+Eval vm_compute in ("<<<M2671>>>" ++ check (runes_of_ascii "options A { }")).
+Eval vm_compute in ("<<<M3820>>>" ++ check (runes_of_ascii "options {
+}")).
+Eval vm_compute in ("<<<M2777>>>" ++ check (runes_of_ascii ", } char")).
+Eval vm_compute in ("<<<M2469>>>" ++ check (runes_of_ascii "Packet")).
+Eval vm_compute in ("<<<M2522>>>" ++ check (runes_of_ascii "`a
+b`")).
+Eval vm_compute in ("<<<M2491>>>" ++ check (runes_of_ascii "@tag")).
+Eval vm_compute in ("<<<M2518>>>" ++ check (runes_of_ascii """`""")).
+Eval vm_compute in ("<<<M2498>>>" ++ check (runes_of_ascii "//")).
+Eval vm_compute in ("<<<M2687>>>" ++ check ([65279]%N)).
